@@ -17,11 +17,13 @@
                               C19_waiting_hosts, C19_no_conns_no_waiting.
    Under `reach_g` (no peer named "", clauses (i') and (iii)):
                               C06_ready_known_g, C19_no_conns_no_tables.
-   Under `reach_a` (wf_init; every EAppAnswer of the history carries o_req = false, `ans_disc`):
-                              C19_origin_backed (every entry of the origin table is in the waiting set
-                              of some host); under `reach_ga` (= reach_g + ans_disc):
+   Under `reach_ga` (= reach_g + `ans_disc`: every EAppAnswer of the history carries o_req = false):
+                              C19_origin_backed (every entry (k, h, e, o) of the origin table: connection k
+                              exists, has a host identity, and the waiting set of that host lists (h, e)),
                               C19_no_conns_no_origin.  The discipline is needed:
-                              C19_origin_backed_request_flag_refuted.
+                              C19_origin_backed_request_flag_refuted; so is the guard, now that the table is
+                              keyed by connection: C19_origin_backed_unguarded_refuted (the statement used to
+                              hold under `reach_a` = wf_init + ans_disc alone).
    Step level:                C13_ready_flag_partial, C13_ready_flag_removed,
                               C13_peer_conn_converse_partial, C13_election_clears_rivals.
 
@@ -398,13 +400,13 @@ Variable md : mode.
 Lemma queue_out_t n0 n cid m : trans md n0 n -> trans md n0 (fst (queue_out n cid m)).
 Proof. intros H. unfold queue_out; cbn [fst]. t_soft. exact H. Qed.
 
-Lemma record_answer_t n0 n h e : trans md n0 n -> trans md n0 (record_answer n h e).
+Lemma record_answer_t n0 n k h e : trans md n0 n -> trans md n0 (record_answer n k h e).
 Proof.
-  intros H. unfold record_answer. destruct (List.find _ _) as [[[a b] o]|]; auto.
+  intros H. unfold record_answer. destruct (List.find _ _) as [[[[k' a] b] o]|]; auto.
   eapply t_a; [apply A_wait|exact H]. apply incl_refl. right; eauto.
 Qed.
 
-Lemma drop_origin_t n0 n h e : trans md n0 n -> trans md n0 (drop_origin n h e).
+Lemma drop_origin_t n0 n k h e : trans md n0 n -> trans md n0 (drop_origin n k h e).
 Proof. intros H. unfold drop_origin. eapply t_a; [apply A_wait|exact H]. apply incl_refl. now left. Qed.
 
 Lemma send_message_t n0 n cid m : trans md n0 n -> trans md n0 (fst (send_message n cid m)).
@@ -1115,7 +1117,7 @@ Proof.
     unfold route_answer. destruct (List.find _ (n_peer_waiting n)) as [[host l]|]; cbn [fst]; auto.
     match goal with |- context [List.find _ (n_conns ?N)] => assert (H1 : trans md n0 N) end.
     { eapply t_a; [apply A_wait|exact H]. rewrite map_fst_pw_remove. apply incl_refl. now left. }
-    destruct (List.find _ (n_conns _)) as [c|]; cbn [fst]; [|now apply drop_origin_t].
+    destruct (List.find _ (n_conns _)) as [c|]; cbn [fst]; [|exact H1].
     destruct (is_ready_state (c_state c)); cbn [fst]; [|now apply drop_origin_t].
     match goal with |- context [send_message ?N ?C ?M] => dpair (send_message N C M) end.
     match goal with |- context [settle_app' ?N ?D] => dpair (settle_app' N D) end. cbn [fst].
@@ -2663,8 +2665,12 @@ Qed.
 (* 8b. C19: the origin table is backed by the waiting table (origin_backed)                   *)
 (*     Not an invariant of the atomic transitions (inside a step a request is first entered   *)
 (*     in the origin table and then either answered or delivered), hence a separate walk      *)
-(*     through the model: R n n' (the origin table shrinks, what stays keeps its backing) is  *)
-(*     shown for every function but the three that need the pair in hand (obx / settled).     *)
+(*     through the model: ZR n n' = R n n' (the origin table shrinks, what stays keeps its    *)
+(*     backing) and Zo n' (a connection with a host identity is the connection of the peer    *)
+(*     of that name, hence one connection per host identity) is shown for every function but  *)
+(*     the three that need the entry in hand (obx / settled).  The handlers that write host   *)
+(*     identities (receive_cer / receive_cea) use the invariants of the guarded atomic        *)
+(*     transitions (Good = GC /\ NI), which hold in every intermediate state.                 *)
 (* ---------------------------------------------------------------------------------------- *)
 Definition pw_get (pw : list (string * list (Z * Z))) (host : string) : list (Z * Z) :=
   match List.find (fun e => String.eqb (fst e) host) pw with Some e => snd e | None => [] end.
@@ -2752,378 +2758,698 @@ Proof.
     + apply pw_get_app_other. cbn. rewrite String.eqb_sym. exact Eh.
 Qed.
 
-(* (h, e) is in the waiting set of some host (the FIRST entry of that host: the one remove_conn looks at) *)
-Definition bk (n : node) (h e : Z) : Prop := exists host, mem_zz (h, e) (pw_get (n_peer_waiting n) host) = true.
-Definition ob (n : node) : Prop := forall h e o, List.In (h, e, o) (n_origin_waiting n) -> bk n h e.
-(* ... except possibly the pair that is being handled *)
-Definition obx (n : node) (h0 e0 : Z) : Prop :=
-  forall h e o, List.In (h, e, o) (n_origin_waiting n) -> (h = h0 /\ e = e0) \/ bk n h e.
-Definition clean (n : node) (h0 e0 : Z) : Prop := forall o, ~ List.In (h0, e0, o) (n_origin_waiting n).
-Definition settled (n : node) (h0 e0 : Z) : Prop := clean n h0 e0 \/ bk n h0 e0.
+(* the host identity of connection k; the connection of the peer named h *)
+Definition hostl (l : list conn) (k : nat) : option string :=
+  option_map c_host (List.find (fun c => Nat.eqb (c_id c) k) l).
+Definition ownl (l : list peer) (h : string) : option nat :=
+  match List.find (fun p => String.eqb (p_name p) h) l with Some p => p_conn p | None => None end.
+Definition hostof (n : node) (k : nat) : option string := hostl (n_conns n) k.
+Definition owner (n : node) (h : string) : option nat := ownl (n_peers n) h.
+
+Lemma hostof_get n k c : get_conn n k = Some c -> hostof n k = Some (c_host c).
+Proof. unfold hostof, hostl, get_conn. intros E. now rewrite E. Qed.
+Lemma hostof_some n k h : hostof n k = Some h -> exists c, get_conn n k = Some c /\ c_host c = h.
+Proof.
+  unfold hostof, hostl, get_conn. destruct (List.find _ _) as [c|]; cbn; [|discriminate].
+  intros E; inversion E. eauto.
+Qed.
+Lemma owner_get n h p : get_peer n h = Some p -> owner n h = p_conn p.
+Proof. unfold owner, ownl, get_peer. intros E. now rewrite E. Qed.
+
+Lemma hostl_upd l cid f k : keeps_id f -> (forall c, c_host (f c) = c_host c) ->
+  hostl (upd_conn l cid f) k = hostl l k.
+Proof.
+  intros Hk Hh. unfold hostl. destruct (Nat.eq_dec cid k) as [D|D].
+  - subst k. rewrite find_upd_conn by exact Hk. destruct (List.find _ l); cbn; auto. now rewrite Hh.
+  - rewrite find_upd_conn_other by auto. reflexivity.
+Qed.
+Lemma hostl_upd_other l cid f k : keeps_id f -> cid <> k -> hostl (upd_conn l cid f) k = hostl l k.
+Proof. intros Hk D. unfold hostl. rewrite find_upd_conn_other by auto. reflexivity. Qed.
+Lemma hostl_app l x k h : hostl l k = Some h -> hostl (l ++ [x]) k = Some h.
+Proof.
+  unfold hostl. induction l as [|a l IH]; cbn; [discriminate|]. destruct (Nat.eqb (c_id a) k); auto.
+Qed.
+Lemma hostl_app_inv l x k h : c_host x = ""%string -> hostl (l ++ [x]) k = Some h -> h <> ""%string -> hostl l k = Some h.
+Proof.
+  unfold hostl. intros Hx. induction l as [|a l IH]; cbn.
+  - destruct (Nat.eqb (c_id x) k); cbn; [|discriminate]. intros E; inversion E. congruence.
+  - destruct (Nat.eqb (c_id a) k); auto.
+Qed.
+Lemma hostl_filter l cid k : k <> cid ->
+  hostl (List.filter (fun x => negb (Nat.eqb (c_id x) cid)) l) k = hostl l k.
+Proof.
+  intros D. unfold hostl. induction l as [|a l IH]; cbn; auto.
+  destruct (Nat.eqb (c_id a) cid) eqn:E1; cbn.
+  - destruct (Nat.eqb (c_id a) k) eqn:E2; auto. apply Nat.eqb_eq in E1, E2. congruence.
+  - destruct (Nat.eqb (c_id a) k); auto.
+Qed.
+Lemma hostl_filter_self l cid : hostl (List.filter (fun x => negb (Nat.eqb (c_id x) cid)) l) cid = None.
+Proof.
+  unfold hostl. destruct (List.find _ (List.filter _ l)) as [c|] eqn:E; auto. exfalso.
+  apply find_some in E. destruct E as [E1 E2]. apply filter_In in E1. destruct E1 as [_ E1].
+  rewrite E2 in E1. discriminate.
+Qed.
+
+Lemma ownl_upd l nm f h : keeps_name f -> (forall p, p_conn (f p) = p_conn p) ->
+  ownl (upd_peer l nm f) h = ownl l h.
+Proof.
+  intros Hk Hc. unfold ownl. induction l as [|p l IH]; cbn; auto.
+  destruct (String.eqb (p_name p) nm); cbn.
+  - rewrite Hk. destruct (String.eqb (p_name p) h); auto.
+  - destruct (String.eqb (p_name p) h); auto.
+Qed.
+Lemma ownl_upd_other l nm f h : keeps_name f -> nm <> h -> ownl (upd_peer l nm f) h = ownl l h.
+Proof.
+  intros Hk D. unfold ownl. induction l as [|p l IH]; cbn; auto.
+  destruct (String.eqb (p_name p) nm) eqn:E; cbn.
+  - rewrite Hk. destruct (String.eqb (p_name p) h) eqn:E2; auto. apply String.eqb_eq in E, E2. congruence.
+  - destruct (String.eqb (p_name p) h); auto.
+Qed.
+Lemma ownl_upd_self l nm f : keeps_name f ->
+  ownl (upd_peer l nm f) nm = match List.find (fun p => String.eqb (p_name p) nm) l with Some p => p_conn (f p) | None => None end.
+Proof. intros Hk. unfold ownl. rewrite find_upd_peer by exact Hk. destruct (List.find _ l); reflexivity. Qed.
+
+(* the pair (h, e) of connection k is in the waiting set of the connection's host identity (the FIRST entry of
+   that host: the one remove_conn looks at) *)
+Definition bk (n : node) (k : nat) (h e : Z) : Prop :=
+  exists host, hostof n k = Some host /\ host <> ""%string /\ mem_zz (h, e) (pw_get (n_peer_waiting n) host) = true.
+Definition ob (n : node) : Prop := forall k h e o, List.In (k, h, e, o) (n_origin_waiting n) -> bk n k h e.
+(* ... except possibly the entry that is being handled *)
+Definition obx (n : node) (k0 : nat) (h0 e0 : Z) : Prop :=
+  forall k h e o, List.In (k, h, e, o) (n_origin_waiting n) -> (k = k0 /\ h = h0 /\ e = e0) \/ bk n k h e.
+Definition clean (n : node) (k0 : nat) (h0 e0 : Z) : Prop := forall o, ~ List.In (k0, h0, e0, o) (n_origin_waiting n).
+Definition settled (n : node) (k0 : nat) (h0 e0 : Z) : Prop := clean n k0 h0 e0 \/ bk n k0 h0 e0.
 (* the origin table shrinks and what stays keeps its backing *)
 Definition R (n n' : node) : Prop :=
-  forall h e o, List.In (h, e, o) (n_origin_waiting n') ->
-    List.In (h, e, o) (n_origin_waiting n) /\ (bk n h e -> bk n' h e).
+  forall k h e o, List.In (k, h, e, o) (n_origin_waiting n') ->
+    List.In (k, h, e, o) (n_origin_waiting n) /\ (bk n k h e -> bk n' k h e).
+(* a connection that has a host identity is the connection of the peer of that name: at most one connection per
+   host identity (Zo_uh) *)
+Definition Zo (n : node) : Prop := forall k h, hostof n k = Some h -> h <> ""%string -> owner n h = Some k.
+Definition ZR (n0 n : node) : Prop := Zo n /\ R n0 n.
+
+Lemma Zo_uh n k1 k2 h : Zo n -> hostof n k1 = Some h -> hostof n k2 = Some h -> h <> ""%string -> k1 = k2.
+Proof. intros HZ H1 H2 Hh. pose proof (HZ _ _ H1 Hh) as A. pose proof (HZ _ _ H2 Hh) as B. congruence. Qed.
 
 Lemma R_refl n : R n n.
-Proof. intros h e o H. auto. Qed.
+Proof. intros k h e o H. auto. Qed.
 Lemma R_trans n1 n2 n3 : R n1 n2 -> R n2 n3 -> R n1 n3.
 Proof.
-  intros H1 H2 h e o H. destruct (H2 h e o H) as [A B]. destruct (H1 h e o A) as [C D]. auto.
+  intros H1 H2 k h e o H. destruct (H2 k h e o H) as [A B]. destruct (H1 k h e o A) as [C D]. auto.
 Qed.
-Lemma R_frame n n' : n_origin_waiting n' = n_origin_waiting n -> n_peer_waiting n' = n_peer_waiting n -> R n n'.
-Proof. intros E1 E2 h e o H. unfold bk. rewrite E2. rewrite E1 in H. auto. Qed.
-Lemma R_fr n0 n n' : n_origin_waiting n' = n_origin_waiting n -> n_peer_waiting n' = n_peer_waiting n ->
-  R n0 n -> R n0 n'.
-Proof. intros E1 E2 H. eapply R_trans; [exact H|now apply R_frame]. Qed.
 Lemma ob_R n n' : R n n' -> ob n -> ob n'.
-Proof. intros HR H h e o Hin. destruct (HR h e o Hin) as [A B]. eauto. Qed.
-Lemma obx_R n n' h0 e0 : R n n' -> obx n h0 e0 -> obx n' h0 e0.
-Proof. intros HR H h e o Hin. destruct (HR h e o Hin) as [A B]. destruct (H h e o A); auto. Qed.
-Lemma clean_R n n' h0 e0 : R n n' -> clean n h0 e0 -> clean n' h0 e0.
-Proof. intros HR H o Hin. destruct (HR _ _ _ Hin) as [A _]. exact (H o A). Qed.
-Lemma ob_obx n h0 e0 : ob n -> obx n h0 e0.
-Proof. intros H h e o Hin. right. eauto. Qed.
-Lemma obx_settled n h0 e0 : obx n h0 e0 -> settled n h0 e0 -> ob n.
+Proof. intros HR H k h e o Hin. destruct (HR k h e o Hin) as [A B]. eauto. Qed.
+Lemma obx_R n n' k0 h0 e0 : R n n' -> obx n k0 h0 e0 -> obx n' k0 h0 e0.
+Proof. intros HR H k h e o Hin. destruct (HR k h e o Hin) as [A B]. destruct (H k h e o A); auto. Qed.
+Lemma clean_R n n' k0 h0 e0 : R n n' -> clean n k0 h0 e0 -> clean n' k0 h0 e0.
+Proof. intros HR H o Hin. destruct (HR _ _ _ _ Hin) as [A _]. exact (H o A). Qed.
+Lemma ob_obx n k0 h0 e0 : ob n -> obx n k0 h0 e0.
+Proof. intros H k h e o Hin. right. eauto. Qed.
+Lemma obx_settled n k0 h0 e0 : obx n k0 h0 e0 -> settled n k0 h0 e0 -> ob n.
 Proof.
-  intros H S h e o Hin. destruct (H h e o Hin) as [[E1 E2]|B]; auto. subst.
+  intros H S k h e o Hin. destruct (H k h e o Hin) as [[E0 [E1 E2]]|B]; auto. subst.
   destruct S as [C|B]; auto. destruct (C o Hin).
 Qed.
 
-(* the origin-table filter of record_answer / drop_origin / receive_message *)
-Lemma in_ofilter h0 e0 (l : list (Z * Z * string)) h e o :
-  List.In (h, e, o) (List.filter (fun x => let '(h, e, _) := x in negb ((h =? h0)%Z && (e =? e0)%Z)) l) <->
-  List.In (h, e, o) l /\ ~ (h = h0 /\ e = e0).
+(* frames: the connections keep their host identities, the peers their connections, the origin table shrinks, the
+   waiting sets grow *)
+Definition FrZ (n n' : node) : Prop :=
+  (forall k h, hostof n k = Some h -> hostof n' k = Some h) /\
+  (forall k h, hostof n' k = Some h -> h <> ""%string -> hostof n k = Some h) /\
+  (forall h k, owner n h = Some k -> owner n' h = Some k).
+Definition Fr (n n' : node) : Prop :=
+  FrZ n n' /\ incl (n_origin_waiting n') (n_origin_waiting n) /\
+  (forall host x, mem_zz x (pw_get (n_peer_waiting n) host) = true -> mem_zz x (pw_get (n_peer_waiting n') host) = true).
+
+Lemma FrZ_Zo n n' : FrZ n n' -> Zo n -> Zo n'.
+Proof. intros [F1 [F2 F3]] HZ k h Hk Hh. apply F3. apply HZ; auto. Qed.
+Lemma Fr_R n n' : Fr n n' -> R n n'.
 Proof.
-  rewrite filter_In. split; intros [A B]; split; auto.
-  - intros [E1 E2]. subst. rewrite !Z.eqb_refl in B. discriminate.
-  - apply negb_true_iff. apply not_true_iff_false. intros C. apply B.
-    apply andb_true_iff in C. destruct C as [C1 C2]. apply Z.eqb_eq in C1, C2. auto.
+  intros [[F1 _] [F4 F5]] k h e o Hin. apply F4 in Hin. split; auto.
+  intros [host [A [B C]]]. exists host. auto.
+Qed.
+Lemma Fr_ZR n0 n n' : Fr n n' -> ZR n0 n -> ZR n0 n'.
+Proof. intros HF [HZ HR]. split; [eapply FrZ_Zo; [apply HF|auto]|eapply R_trans; [exact HR|now apply Fr_R]]. Qed.
+Lemma FrZ_eq n n' :
+  (forall k, hostl (n_conns n') k = hostl (n_conns n) k) -> (forall h, ownl (n_peers n') h = ownl (n_peers n) h) ->
+  FrZ n n'.
+Proof. intros E1 E2. unfold FrZ, hostof, owner. repeat split; intros *; rewrite ?E1, ?E2; auto. Qed.
+Lemma Fr_eq n n' :
+  (forall k, hostl (n_conns n') k = hostl (n_conns n) k) -> (forall h, ownl (n_peers n') h = ownl (n_peers n) h) ->
+  n_origin_waiting n' = n_origin_waiting n -> n_peer_waiting n' = n_peer_waiting n -> Fr n n'.
+Proof.
+  intros E1 E2 E3 E4. split; [now apply FrZ_eq|]. rewrite E3, E4. split; [apply incl_refl|auto].
+Qed.
+
+Ltac fr_fn := let c := fresh "c" in
+  intro c; repeat (match goal with |- context [if ?b then _ else _] => destruct b end); reflexivity.
+Ltac fr_tac :=
+  apply Fr_eq;
+  cbn [n_conns n_peers n_origin_waiting n_peer_waiting set_conns set_peers set_apps set_tables set_waiting set_time set_misc];
+  [ intro; try reflexivity; apply hostl_upd; fr_fn
+  | intro; try reflexivity; apply ownl_upd; fr_fn
+  | reflexivity | reflexivity ].
+Ltac z_fr H := (eapply Fr_ZR; [|exact H]); fr_tac.
+Ltac z_frs N := (apply (Fr_ZR _ N); [fr_tac|]).
+
+(* the origin-table filter of record_answer / drop_origin / receive_message *)
+Lemma ow_key_true k0 h0 e0 k h e (o : string) : ow_key k0 h0 e0 (k, h, e, o) = true <-> k = k0 /\ h = h0 /\ e = e0.
+Proof.
+  unfold ow_key. rewrite !andb_true_iff, Nat.eqb_eq, !Z.eqb_eq. tauto.
+Qed.
+Lemma in_ofilter k0 h0 e0 (l : list (nat * Z * Z * string)) k h e o :
+  List.In (k, h, e, o) (List.filter (fun x => negb (ow_key k0 h0 e0 x)) l) <->
+  List.In (k, h, e, o) l /\ ~ (k = k0 /\ h = h0 /\ e = e0).
+Proof.
+  rewrite filter_In, negb_true_iff, <- not_true_iff_false, ow_key_true. tauto.
 Qed.
 
 Lemma rc_ow n cid r c : get_conn n cid = Some c ->
   n_origin_waiting (remove_conn n cid r) =
-  List.filter (fun x => let '(h, e, _) := x in negb (mem_zz (h, e) (pw_get (n_peer_waiting n) (c_host c))))
+  List.filter (fun x => let '(k, h, e, _) := x in
+                 negb (Nat.eqb k cid && mem_zz (h, e) (pw_get (n_peer_waiting n) (c_host c))))
               (n_origin_waiting n).
 Proof.
   intros Hget. unfold remove_conn, pw_get. rewrite Hget.
   destruct (find_conn_peer n c) as [p|]; [destruct (p_conn p) as [k|]; [destruct (Nat.eqb k cid)|]|]; reflexivity.
 Qed.
 
-Lemma remove_conn_R n0 n cid r : R n0 n -> R n0 (remove_conn n cid r).
+Lemma rc_owner n cid r c h k : get_conn n cid = Some c -> k <> cid ->
+  owner n h = Some k -> owner (remove_conn n cid r) h = Some k.
 Proof.
-  intros H. eapply R_trans; [exact H|]. destruct (get_conn n cid) as [c|] eqn:Ec.
-  - intros h e o Hin. rewrite (rc_ow _ _ _ _ Ec) in Hin. apply filter_In in Hin. destruct Hin as [Hin Hn].
-    split; auto. intros [host Hb]. exists host. rewrite (rc_pw _ _ _ _ Ec), pw_get_filter.
-    destruct (String.eqb host (c_host c)) eqn:Eh; auto. apply String.eqb_eq in Eh. subst host.
-    rewrite Hb in Hn. discriminate.
-  - unfold remove_conn. rewrite Ec. apply R_refl.
+  intros Hget D Ho. unfold owner. rewrite (rc_peers _ _ r _ Hget). unfold removed_peers.
+  destruct (find_conn_peer n c) as [p|] eqn:Ef; auto.
+  destruct (p_conn p) as [k'|] eqn:Ek; auto. destruct (Nat.eqb k' cid) eqn:E; auto.
+  apply Nat.eqb_eq in E. subst k'. apply find_conn_peer_some in Ef. destruct Ef as [Ef _].
+  destruct (String.eqb (p_name p) h) eqn:En.
+  - apply String.eqb_eq in En. subst h. rewrite (owner_get _ _ _ Ef) in Ho. congruence.
+  - apply String.eqb_neq in En. rewrite ownl_upd_other; auto. intro; reflexivity.
 Qed.
-Lemma close_conn_R n0 n cid r : R n0 n -> R n0 (fst (close_conn n cid r)).
-Proof. intros H. unfold close_conn. destruct (get_conn n cid); cbn [fst]; auto. now apply remove_conn_R. Qed.
-Lemma close_all_R ks : forall n0 n r, R n0 n -> R n0 (fst (close_all n ks r)).
+
+Lemma remove_conn_ZR n0 n cid r : ZR n0 n -> ZR n0 (remove_conn n cid r).
+Proof.
+  intros [HZ H]. destruct (get_conn n cid) as [c|] eqn:Ec.
+  2:{ unfold remove_conn. rewrite Ec. split; auto. }
+  assert (Hh : forall k, k <> cid -> hostof (remove_conn n cid r) k = hostof n k).
+  { intros k D. unfold hostof. rewrite (rc_conns _ _ r _ Ec). now apply hostl_filter. }
+  assert (Hs : hostof (remove_conn n cid r) cid = None).
+  { unfold hostof. rewrite (rc_conns _ _ r _ Ec). apply hostl_filter_self. }
+  split.
+  - intros k h Hk Hne. destruct (Nat.eq_dec k cid) as [D|D]; [subst k; congruence|].
+    rewrite Hh in Hk by exact D. eapply rc_owner; eauto.
+  - eapply R_trans; [exact H|]. intros k h e o Hin. rewrite (rc_ow _ _ _ _ Ec) in Hin.
+    apply filter_In in Hin. destruct Hin as [Hin Hn]. split; auto.
+    intros [host [A [B C]]]. exists host.
+    destruct (Nat.eq_dec k cid) as [D|D].
+    + subst k. rewrite (hostof_get _ _ _ Ec) in A. inversion A; subst host.
+      rewrite Nat.eqb_refl, C in Hn. discriminate.
+    + rewrite Hh by exact D. split; auto. split; auto.
+      rewrite (rc_pw _ _ r _ Ec), pw_get_filter.
+      destruct (String.eqb host (c_host c)) eqn:Eh; auto. apply String.eqb_eq in Eh. subst host.
+      exfalso. apply D. eapply Zo_uh; eauto. now apply hostof_get.
+Qed.
+Lemma close_conn_ZR n0 n cid r : ZR n0 n -> ZR n0 (fst (close_conn n cid r)).
+Proof. intros H. unfold close_conn. destruct (get_conn n cid); cbn [fst]; auto. now apply remove_conn_ZR. Qed.
+Lemma close_all_ZR ks : forall n0 n r, ZR n0 n -> ZR n0 (fst (close_all n ks r)).
 Proof.
   induction ks as [|k ks IH]; intros n0 n r H; cbn [close_all fst]; auto.
   dpair (close_conn n k r). dpair (close_all (fst (close_conn n k r)) ks r). cbn [fst].
-  apply IH. now apply close_conn_R.
+  apply IH. now apply close_conn_ZR.
 Qed.
 
-Lemma record_answer_R n0 n h e : R n0 n -> R n0 (record_answer n h e).
+Lemma record_answer_ZR n0 n k h e : ZR n0 n -> ZR n0 (record_answer n k h e).
 Proof.
-  intros H. eapply R_trans; [exact H|]. unfold record_answer.
-  destruct (List.find _ _) as [[[a b] o]|]; [|apply R_refl].
-  intros h1 e1 o1 Hin. cbn in Hin. apply in_ofilter in Hin. destruct Hin as [Hin _]. split; auto.
+  intros H. unfold record_answer. destruct (List.find _ _) as [[[[k' a] b] o]|]; auto.
+  eapply Fr_ZR; [|exact H]. split; [apply FrZ_eq; reflexivity|]. cbn. split; [apply incl_filter|auto].
 Qed.
-Lemma record_answer_clean n h e : clean (record_answer n h e) h e.
+Lemma record_answer_clean n k h e : clean (record_answer n k h e) k h e.
 Proof.
-  unfold record_answer. destruct (List.find _ _) as [[[a b] o]|] eqn:E.
+  unfold record_answer. destruct (List.find _ _) as [[[[k' a] b] o]|] eqn:E.
   - intros o1 Hin. cbn in Hin. apply in_ofilter in Hin. destruct Hin as [_ Hn]. apply Hn. auto.
-  - intros o1 Hin. pose proof (find_none _ _ E _ Hin) as C. cbn in C. rewrite !Z.eqb_refl in C. discriminate.
+  - intros o1 Hin. pose proof (find_none _ _ E _ Hin) as C. cbn in C. rewrite Nat.eqb_refl, !Z.eqb_refl in C. discriminate.
 Qed.
-Lemma drop_origin_R n0 n h e : R n0 n -> R n0 (drop_origin n h e).
+Lemma drop_origin_ZR n0 n k h e : ZR n0 n -> ZR n0 (drop_origin n k h e).
 Proof.
-  intros H. eapply R_trans; [exact H|]. intros h1 e1 o1 Hin. cbn in Hin. apply in_ofilter in Hin.
-  destruct Hin as [Hin _]. split; auto.
+  intros H. eapply Fr_ZR; [|exact H]. split; [apply FrZ_eq; reflexivity|]. cbn. split; [apply incl_filter|auto].
 Qed.
-Lemma drop_origin_clean n h e : clean (drop_origin n h e) h e.
+Lemma drop_origin_clean n k h e : clean (drop_origin n k h e) k h e.
 Proof. intros o1 Hin. cbn in Hin. apply in_ofilter in Hin. destruct Hin as [_ Hn]. apply Hn. auto. Qed.
 
-Lemma bk_pw_remove n n1 host h e h1 e1 :
-  n_peer_waiting n1 = pw_remove (n_peer_waiting n) host (h, e) -> ~ (h1 = h /\ e1 = e) ->
-  bk n h1 e1 -> bk n1 h1 e1.
+(* the waiting entry (h, e) of connection cid's host is taken and (cid, h, e) has left the origin table *)
+Lemma take_R n n' cid hc h e : Zo n -> hostof n cid = Some hc ->
+  (forall k, hostof n' k = hostof n k) -> n_peer_waiting n' = pw_remove (n_peer_waiting n) hc (h, e) ->
+  incl (n_origin_waiting n') (n_origin_waiting n) -> clean n' cid h e -> R n n'.
 Proof.
-  intros E Hn [hs Hb]. exists hs. rewrite E, pw_get_remove. destruct (String.eqb hs host); auto.
-  apply mem_zz_remove; auto. cbn. intros [A B]. apply Hn. auto.
-Qed.
-(* the waiting entry (h, e) is taken and, afterwards, (h, e) leaves the origin table *)
-Lemma R_take n n1 n2 host h e :
-  n_origin_waiting n1 = n_origin_waiting n -> n_peer_waiting n1 = pw_remove (n_peer_waiting n) host (h, e) ->
-  R n1 n2 -> clean n2 h e -> R n n2.
-Proof.
-  intros E1 E2 HR Hc h1 e1 o1 Hin. destruct (HR _ _ _ Hin) as [A B]. rewrite E1 in A. split; auto.
-  intros Hb. apply B. eapply bk_pw_remove; eauto. intros [X Y]. subst. exact (Hc _ Hin).
+  intros HZ Hc Hh Hp Hi Hcl k h1 e1 o Hin. split; [now apply Hi|].
+  intros [host [A [B C]]]. exists host. rewrite Hh. split; auto. split; auto.
+  rewrite Hp, pw_get_remove. destruct (String.eqb host hc) eqn:Eh; auto.
+  apply String.eqb_eq in Eh. subst host. apply mem_zz_remove; auto. cbn. intros [X Y]. subst.
+  assert (k = cid) by (eapply Zo_uh; eauto). subst k. exact (Hcl _ Hin).
 Qed.
 
-Lemma send_message_R n0 n cid m : R n0 n -> R n0 (fst (send_message n cid m)).
+Lemma send_message_ZR n0 n cid m : ZR n0 n -> ZR n0 (fst (send_message n cid m)).
 Proof.
-  intros H. eapply R_trans; [exact H|]. unfold send_message, queue_out. destruct (o_req m); cbn [fst].
-  - apply R_frame; reflexivity.
-  - destruct (get_conn n cid) as [c|].
-    + eapply R_take; [| |apply record_answer_R; apply R_frame; reflexivity|apply record_answer_clean];
-        reflexivity.
-    + apply record_answer_R. apply R_frame; reflexivity.
+  intros H. unfold send_message, queue_out. destruct (o_req m); cbn [fst].
+  - z_fr H.
+  - destruct (get_conn n cid) as [c|] eqn:Ec.
+    + destruct H as [HZ H]. split.
+      * eapply FrZ_Zo; [|exact HZ]. unfold record_answer. destruct (List.find _ _) as [[[[k' a] b] o]|];
+          apply FrZ_eq; cbn [n_conns n_peers set_conns set_waiting]; intro; try reflexivity; apply hostl_upd; fr_fn.
+      * eapply R_trans; [exact H|]. eapply (take_R _ _ cid (c_host c)); auto.
+        -- now apply hostof_get.
+        -- intros k. unfold record_answer. destruct (List.find _ _) as [[[[k' a] b] o]|];
+             unfold hostof; cbn [n_conns set_conns set_waiting]; apply hostl_upd; fr_fn.
+        -- unfold record_answer. destruct (List.find _ _) as [[[[k' a] b] o]|]; reflexivity.
+        -- unfold record_answer. destruct (List.find _ _) as [[[[k' a] b] o]|]; cbn; [apply incl_filter|apply incl_refl].
+        -- apply record_answer_clean.
+    + apply record_answer_ZR. z_fr H.
 Qed.
-Lemma send_message_clean n cid m : o_req m = false -> clean (fst (send_message n cid m)) (o_hbh m) (o_e2e m).
+Lemma send_message_clean n cid m : o_req m = false -> clean (fst (send_message n cid m)) cid (o_hbh m) (o_e2e m).
 Proof. intros E. unfold send_message, queue_out. rewrite E. cbn [fst]. apply record_answer_clean. Qed.
-(* R and settled together *)
-Definition RS (n0 n : node) (h e : Z) : Prop := R n0 n /\ settled n h e.
-Lemma send_answer_RS n0 n cid m r f : R n0 n -> RS n0 (fst (send_message n cid (answer_of m r f))) (m_hbh m) (m_e2e m).
+(* ZR and settled together *)
+Definition RS (n0 n : node) (k : nat) (h e : Z) : Prop := ZR n0 n /\ settled n k h e.
+Lemma send_answer_RS n0 n cid m r f : ZR n0 n -> RS n0 (fst (send_message n cid (answer_of m r f))) cid (m_hbh m) (m_e2e m).
 Proof.
-  intros H. split; [now apply send_message_R|]. left.
+  intros H. split; [now apply send_message_ZR|]. left.
   exact (send_message_clean n cid (answer_of m r f) eq_refl).
 Qed.
 
-Ltac r_fr := eapply R_fr; [reflexivity|reflexivity|].
-
-Lemma flag_ready_R n0 n cid : R n0 n -> R n0 (flag_ready n cid).
-Proof. intros H. unfold flag_ready. r_fr. exact H. Qed.
-Lemma assign_peer_conn_R n0 n cid : R n0 n -> R n0 (assign_peer_conn n cid).
+Lemma ownl_upd_mono l nm f h k : keeps_name f -> (forall p, p_conn p = Some k -> p_conn (f p) = Some k) ->
+  ownl l h = Some k -> ownl (upd_peer l nm f) h = Some k.
 Proof.
-  intros H. unfold assign_peer_conn. destruct (get_conn n cid) as [c|]; auto.
-  destruct (String.eqb (c_host c) ""); auto. destruct (get_peer n (c_host c)); auto.
-  destruct (mem_nat cid (n_half_ready n)); r_fr; exact H.
+  intros Hk Hm. unfold ownl. induction l as [|p l IH]; cbn; auto.
+  destruct (String.eqb (p_name p) nm); cbn.
+  - rewrite Hk. destruct (String.eqb (p_name p) h); auto.
+  - destruct (String.eqb (p_name p) h); auto.
 Qed.
-Lemma recv_dwa_R n0 n cid : R n0 n -> R n0 (fst (recv_dwa n cid)).
-Proof. intros H. unfold recv_dwa; cbn [fst]. r_fr. exact H. Qed.
-Lemma recv_dpa_R n0 n cid : R n0 n -> R n0 (fst (recv_dpa n cid)).
+Lemma ownl_upd_none l nm f h k : keeps_name f -> ownl l nm = None ->
+  ownl l h = Some k -> ownl (upd_peer l nm f) h = Some k.
+Proof.
+  intros Hk Hn Hh. destruct (String.eqb nm h) eqn:E.
+  - apply String.eqb_eq in E. congruence.
+  - apply String.eqb_neq in E. rewrite ownl_upd_other; auto.
+Qed.
+Lemma Fr_new n n' x : n_conns n' = (n_conns n ++ [x])%list -> c_host x = ""%string ->
+  (forall h k, owner n h = Some k -> owner n' h = Some k) ->
+  n_origin_waiting n' = n_origin_waiting n -> n_peer_waiting n' = n_peer_waiting n -> Fr n n'.
+Proof.
+  intros Ec Hx Ho E3 E4. split; [|rewrite E3, E4; split; [apply incl_refl|auto]].
+  unfold FrZ, hostof. rewrite Ec. split; [|split; auto].
+  - intros k h. apply hostl_app.
+  - intros k h. now apply hostl_app_inv.
+Qed.
+
+Lemma flag_ready_ZR n0 n cid : ZR n0 n -> ZR n0 (flag_ready n cid).
+Proof. intros H. unfold flag_ready. z_fr H. Qed.
+Lemma assign_Fr n cid : Fr n (assign_peer_conn n cid).
+Proof.
+  assert (H0 : Fr n n) by (apply Fr_eq; reflexivity).
+  unfold assign_peer_conn. destruct (get_conn n cid) as [c|]; auto.
+  destruct (String.eqb (c_host c) ""); auto. destruct (get_peer n (c_host c)); auto.
+  destruct (mem_nat cid (n_half_ready n)); (split; [|cbn; split; [apply incl_refl|auto]]);
+    (split; [|split]; [intros k h E; exact E|intros k h E _; exact E|]);
+    intros h k; unfold owner; cbn [n_peers set_peers set_tables]; apply ownl_upd_mono;
+    try (intro; reflexivity); intros q Eq; cbn; now rewrite Eq.
+Qed.
+Lemma assign_peer_conn_ZR n0 n cid : ZR n0 n -> ZR n0 (assign_peer_conn n cid).
+Proof. apply Fr_ZR, assign_Fr. Qed.
+Lemma recv_dwa_ZR n0 n cid : ZR n0 n -> ZR n0 (fst (recv_dwa n cid)).
+Proof. intros H. unfold recv_dwa; cbn [fst]. z_fr H. Qed.
+Lemma recv_dpa_ZR n0 n cid : ZR n0 n -> ZR n0 (fst (recv_dpa n cid)).
 Proof.
   intros H. unfold recv_dpa.
-  match goal with |- R _ (fst (match get_conn ?N cid with _ => _ end)) => assert (H1 : R n0 N) by (r_fr; exact H) end.
-  destruct (get_conn _ cid) as [c|]; auto. destruct (c_out c); auto. now apply close_conn_R.
+  match goal with |- ZR _ (fst (match get_conn ?N cid with _ => _ end)) => assert (H1 : ZR n0 N) by (z_fr H) end.
+  destruct (get_conn _ cid) as [c|]; auto. destruct (c_out c); auto. now apply close_conn_ZR.
 Qed.
-Lemma recv_cea_R n0 n cid m : R n0 n -> R n0 (fst (recv_cea n cid m)).
-Proof.
-  intros H. unfold recv_cea. destruct (get_conn n cid) as [c0|]; auto.
-  destruct (negb _); auto.
-  apply (match_2001 (fun x => R n0 (fst x))); [|now apply close_conn_R].
-  destruct (pres_get (m_origin m)); auto.
-  destruct (_ && _); [now apply close_conn_R|]. cbn [fst].
-  apply flag_ready_R, assign_peer_conn_R. r_fr. exact H.
-Qed.
-Lemma recv_app_answer_R n0 n m : R n0 n -> R n0 (fst (recv_app_answer n m)).
+Lemma recv_app_answer_ZR n0 n m : ZR n0 n -> ZR n0 (fst (recv_app_answer n m)).
 Proof.
   intros H. unfold recv_app_answer. destruct (List.find _ _) as [[[a b] i]|]; auto.
-  destruct (List.nth_error _ i); auto. destruct (mem_z _ _); cbn [fst]; r_fr; exact H.
+  destruct (List.nth_error _ i); auto. destruct (mem_z _ _); cbn [fst]; z_fr H.
 Qed.
-Lemma own_request_R n0 n cid c : R n0 n -> R n0 (fst (own_request n cid c)).
-Proof. intros H. unfold own_request. destruct (get_conn n cid); cbn [fst]; auto. Qed.
-Lemma send_cer_R n0 n cid : R n0 n -> R n0 (fst (send_cer n cid)).
-Proof. intros H. unfold send_cer. dpair (own_request n cid CE). apply send_message_R. now apply own_request_R. Qed.
-Lemma send_dwr_R n0 n cid : R n0 n -> R n0 (fst (send_dwr n cid)).
+Lemma own_request_ZR n0 n cid c : ZR n0 n -> ZR n0 (fst (own_request n cid c)).
+Proof. intros H. unfold own_request. destruct (get_conn n cid); cbn [fst]; auto. z_fr H. Qed.
+Lemma send_cer_ZR n0 n cid : ZR n0 n -> ZR n0 (fst (send_cer n cid)).
+Proof. intros H. unfold send_cer. dpair (own_request n cid CE). apply send_message_ZR. now apply own_request_ZR. Qed.
+Lemma send_dwr_ZR n0 n cid : ZR n0 n -> ZR n0 (fst (send_dwr n cid)).
 Proof.
   intros H. unfold send_dwr. dpair (own_request n cid DW).
   match goal with |- context [send_message ?N ?C ?M] => dpair (send_message N C M) end.
-  cbn [fst]. r_fr. apply send_message_R. now apply own_request_R.
+  cbn [fst]. match goal with |- ZR _ (set_conns ?N _) => z_frs N end. apply send_message_ZR. now apply own_request_ZR.
 Qed.
-Lemma send_dpr_R n0 n cid : R n0 n -> R n0 (fst (send_dpr n cid)).
+Lemma send_dpr_ZR n0 n cid : ZR n0 n -> ZR n0 (fst (send_dpr n cid)).
 Proof.
-  intros H. unfold send_dpr. dpair (own_request n cid DP). apply send_message_R. r_fr. now apply own_request_R.
+  intros H. unfold send_dpr. dpair (own_request n cid DP). apply send_message_ZR. match goal with |- ZR _ (set_conns ?N _) => z_frs N end. now apply own_request_ZR.
 Qed.
 
-Lemma check_timers_R n0 n cid : R n0 n -> R n0 (fst (check_timers n cid)).
+Lemma check_timers_ZR n0 n cid : ZR n0 n -> ZR n0 (fst (check_timers n cid)).
 Proof.
   intros H. unfold check_timers. destruct (n_stopping n); auto. destruct (get_conn n cid) as [c|]; auto.
   destruct (c_state c); auto;
     match goal with |- context [if ?b then _ else _] => destruct b end; auto;
-    try now apply close_conn_R. now apply send_dwr_R.
+    try now apply close_conn_ZR. now apply send_dwr_ZR.
 Qed.
-Lemma timers_all_R cids : forall n0 n, R n0 n -> R n0 (fst (timers_all n cids)).
+Lemma timers_all_ZR cids : forall n0 n, ZR n0 n -> ZR n0 (fst (timers_all n cids)).
 Proof.
   induction cids as [|c r IH]; intros n0 n H; cbn [timers_all fst]; auto.
   dpair (check_timers n c). dpair (timers_all (fst (check_timers n c)) r). cbn [fst].
-  apply IH. now apply check_timers_R.
+  apply IH. now apply check_timers_ZR.
 Qed.
-Lemma connect_to_peer_R n0 n name h res : R n0 n -> R n0 (fst (connect_to_peer n name h res)).
+Lemma connect_to_peer_ZR n0 n name h res : ZR n0 n -> ZR n0 (fst (connect_to_peer n name h res)).
 Proof.
-  intros H. unfold connect_to_peer. destruct (get_peer n name) as [p|]; auto.
-  destruct (p_conn p); auto. destruct (negb (p_has_addr p)); auto. cbv zeta.
+  intros H. unfold connect_to_peer. destruct (get_peer n name) as [p|] eqn:Ep; auto.
+  destruct (p_conn p) eqn:Epc; auto. destruct (negb (p_has_addr p)); auto. cbv zeta.
+  match goal with |- context [close_conn ?N _ R_SOCKET_FAIL] => assert (H3 : ZR n0 N) end.
+  { eapply Fr_ZR; [|exact H]. eapply Fr_new; [reflexivity|reflexivity| |reflexivity|reflexivity].
+    intros h0 k. unfold owner. cbn [n_peers set_peers set_tables set_misc set_conns].
+    apply ownl_upd_none; [intro; reflexivity|]. change (owner n name = None). now rewrite (owner_get _ _ _ Ep). }
   destruct res.
   - match goal with |- context [send_cer ?N ?C] => dpair (send_cer N C) end. cbn [fst].
-    apply send_cer_R. r_fr. exact H.
+    apply send_cer_ZR. z_fr H3.
   - match goal with |- context [close_conn ?N ?C ?R] => dpair (close_conn N C R) end. cbn [fst].
-    apply close_conn_R. r_fr. exact H.
-  - cbn [fst]. r_fr. exact H.
+    apply close_conn_ZR. exact H3.
+  - cbn [fst]. exact H3.
 Qed.
-Lemma reconnect_all_R names : forall n0 n ds, R n0 n -> R n0 (fst (fst (reconnect_all n names ds))).
+Lemma reconnect_all_ZR names : forall n0 n ds, ZR n0 n -> ZR n0 (fst (fst (reconnect_all n names ds))).
 Proof.
   induction names as [|nm r IH]; intros n0 n ds H; cbn [reconnect_all fst]; auto.
   destruct (get_peer n nm) as [p|]; auto.
   destruct (wants_reconnect n p && p_has_addr p); auto.
   destruct ds as [|[h0 res] dr].
   - dpair (connect_to_peer n nm 0 DialOk). dtriple (reconnect_all (fst (connect_to_peer n nm 0 DialOk)) r []).
-    cbn [fst]. apply IH. now apply connect_to_peer_R.
+    cbn [fst]. apply IH. now apply connect_to_peer_ZR.
   - dpair (connect_to_peer n nm h0 res). dtriple (reconnect_all (fst (connect_to_peer n nm h0 res)) r dr).
-    cbn [fst]. apply IH. now apply connect_to_peer_R.
+    cbn [fst]. apply IH. now apply connect_to_peer_ZR.
 Qed.
-Lemma io_iteration_R n0 n ds : R n0 n -> R n0 (fst (fst (io_iteration n ds))).
+Lemma io_iteration_ZR n0 n ds : ZR n0 n -> ZR n0 (fst (fst (io_iteration n ds))).
 Proof.
   intros H. unfold io_iteration. dpair (timers_all n (List.map c_id (n_conns n))).
   match goal with |- context [reconnect_all ?N ?L ?D] => dtriple (reconnect_all N L D) end.
-  cbn [fst]. r_fr. apply reconnect_all_R. now apply timers_all_R.
+  cbn [fst]. match goal with |- ZR _ (set_time ?N _ _) => z_frs N end. apply reconnect_all_ZR. now apply timers_all_ZR.
 Qed.
-Lemma flush_conns_R cids : forall n0 n, R n0 n -> R n0 (fst (flush_conns n cids)).
+Lemma flush_conns_ZR cids : forall n0 n, ZR n0 n -> ZR n0 (fst (flush_conns n cids)).
 Proof.
   induction cids as [|cid r IH]; intros n0 n H; cbn [flush_conns fst]; auto.
   match goal with |- context [let '(n1, o1) := ?X in _] =>
-    assert (H1 : R n0 (fst X)); [|dpair X] end.
+    assert (H1 : ZR n0 (fst X)); [|dpair X] end.
   { destruct (get_conn n cid) as [c|]; auto. destruct (c_stalled c || negb (c_sock_open c)); auto.
-    assert (H2 : R n0 (set_conns n (upd_conn (n_conns n) cid (fun c => set_cout c [])))) by (r_fr; exact H).
+    assert (H2 : ZR n0 (set_conns n (upd_conn (n_conns n) cid (fun c => set_cout c [])))) by (z_fr H).
     destruct (c_out c); auto. destruct (cstate_eqb (c_state c) SClosing); auto.
     match goal with |- context [close_conn ?N ?C ?R] => dpair (close_conn N C R) end. cbn [fst].
-    now apply close_conn_R. }
+    now apply close_conn_ZR. }
   match goal with |- context [flush_conns ?N r] => dpair (flush_conns N r) end. cbn [fst].
   apply IH. exact H1.
 Qed.
-Lemma flush_R n0 n : R n0 n -> R n0 (fst (flush n)).
-Proof. intros H. unfold flush. now apply flush_conns_R. Qed.
-Lemma settle_R n0 n ds : R n0 n -> R n0 (fst (fst (settle n ds))).
+Lemma flush_ZR n0 n : ZR n0 n -> ZR n0 (fst (flush n)).
+Proof. intros H. unfold flush. now apply flush_conns_ZR. Qed.
+Lemma settle_ZR n0 n ds : ZR n0 n -> ZR n0 (fst (fst (settle n ds))).
 Proof.
   intros H. unfold settle. dpair (flush n).
   match goal with |- context [io_iteration ?N ?D] => dtriple (io_iteration N D) end.
   match goal with |- context [flush ?N] => dpair (flush N) end. cbn [fst].
-  apply flush_R. apply io_iteration_R. now apply flush_R.
+  apply flush_ZR. apply io_iteration_ZR. now apply flush_ZR.
 Qed.
-Lemma settle'_R n0 n ds : R n0 n -> R n0 (fst (settle' n ds)).
-Proof. intros H. unfold settle'. dtriple (settle n ds). cbn [fst]. now apply settle_R. Qed.
-Lemma settle_app_R n0 n ds : R n0 n -> R n0 (fst (fst (settle_app n ds))).
+Lemma settle'_ZR n0 n ds : ZR n0 n -> ZR n0 (fst (settle' n ds)).
+Proof. intros H. unfold settle'. dtriple (settle n ds). cbn [fst]. now apply settle_ZR. Qed.
+Lemma settle_app_ZR n0 n ds : ZR n0 n -> ZR n0 (fst (fst (settle_app n ds))).
 Proof.
   intros H. unfold settle_app.
   match goal with |- context [io_iteration ?N ?D] => dtriple (io_iteration N D) end.
   match goal with |- context [flush ?N] => dpair (flush N) end. cbn [fst].
-  apply flush_R. now apply io_iteration_R.
+  apply flush_ZR. now apply io_iteration_ZR.
 Qed.
-Lemma settle_app'_R n0 n ds : R n0 n -> R n0 (fst (settle_app' n ds)).
-Proof. intros H. unfold settle_app'. dtriple (settle_app n ds). cbn [fst]. now apply settle_app_R. Qed.
+Lemma settle_app'_ZR n0 n ds : ZR n0 n -> ZR n0 (fst (settle_app' n ds)).
+Proof. intros H. unfold settle_app'. dtriple (settle_app n ds). cbn [fst]. now apply settle_app_ZR. Qed.
 
-Lemma recv_dwr_RS n0 n cid m : R n0 n -> RS n0 (fst (recv_dwr n cid m)) (m_hbh m) (m_e2e m).
+(* the mode of ce_guard, and the invariants of its atomic transitions: they hold in every intermediate state *)
+Definition gm : mode := MG true WAll.
+Definition Good (n : node) : Prop := GC n /\ NI n.
+Lemma Good_trans n n' : trans gm n n' -> Good n -> Good n'.
+Proof.
+  apply (trans_inv gm Good). intros a b Hs [A B]. split; [eapply astep_GC; eauto; exact I|eapply astep_NI; eauto; exact I].
+Qed.
+
+Lemma recv_dwr_RS n0 n cid m : ZR n0 n -> RS n0 (fst (recv_dwr n cid m)) cid (m_hbh m) (m_e2e m).
 Proof. intros H. unfold recv_dwr. now apply send_answer_RS. Qed.
-Lemma recv_dpr_RS n0 n cid m : R n0 n -> RS n0 (fst (recv_dpr n cid m)) (m_hbh m) (m_e2e m).
+Lemma recv_dpr_RS n0 n cid m : ZR n0 n -> RS n0 (fst (recv_dpr n cid m)) cid (m_hbh m) (m_e2e m).
 Proof.
   intros H. unfold recv_dpr. apply send_answer_RS.
-  destruct (get_conn _ cid) as [c|]; [|r_fr; exact H]. destruct (find_conn_peer _ c); r_fr; exact H.
+  assert (H1 : ZR n0 (set_conns n (upd_conn (n_conns n) cid (fun c => set_cstate c SDisconnecting)))) by z_fr H.
+  destruct (get_conn _ cid) as [c|]; [|exact H1]. destruct (find_conn_peer _ c); [|exact H1]. z_fr H1.
 Qed.
-Lemma cer_tail_RS n0 n rivals cid host m : R n0 n ->
-  RS n0 (fst (cer_tail n rivals cid host m)) (m_hbh m) (m_e2e m).
+
+Lemma find_name_in l h : List.In h (List.map p_name l) -> List.find (fun p => String.eqb (p_name p) h) l <> None.
 Proof.
-  intros H. unfold cer_tail. dpair (close_all n rivals R_CLEAN).
-  assert (H1 : R n0 (fst (close_all n rivals R_CLEAN))) by now apply close_all_R.
-  apply (match3 (fun x => RS n0 (fst x) (m_hbh m) (m_e2e m))).
+  intros Hin E. apply in_map_iff in Hin. destruct Hin as [p [Ep Hp]].
+  pose proof (find_none _ _ E p Hp) as C. cbn in C. rewrite Ep, String.eqb_refl in C. discriminate.
+Qed.
+
+Lemma assign_owner n cid c p : get_conn n cid = Some c -> c_host c <> ""%string -> get_peer n (c_host c) = Some p ->
+  owner (assign_peer_conn n cid) (c_host c) = Some (match p_conn p with Some k => k | None => cid end).
+Proof.
+  intros Ec Hh Ep. unfold assign_peer_conn. rewrite Ec. apply String.eqb_neq in Hh. rewrite Hh, Ep.
+  destruct (mem_nat cid (n_half_ready n)); unfold owner; cbn [n_peers set_peers set_tables];
+    (rewrite ownl_upd_self by (intro; reflexivity)); unfold get_peer in Ep; rewrite Ep; cbn; destruct (p_conn p); reflexivity.
+Qed.
+
+(* the capabilities exchange succeeds: the host identity is set and the peer gets its connection *)
+Lemma sethost_ZR n0 n cid c host au ac :
+  ZR n0 n -> get_conn n cid = Some c -> (c_host c <> ""%string -> c_host c = host) ->
+  (host <> ""%string -> get_peer n host <> None /\ (owner n host = None \/ owner n host = Some cid)) ->
+  ZR n0 (assign_peer_conn (set_conns n (upd_conn (n_conns n) cid (fun c => set_cident c (c_node_name c) host au ac))) cid).
+Proof.
+  intros [HZ H] Ec Hold Hown.
+  match goal with |- context [upd_conn _ cid ?F] => set (hf := F) end.
+  assert (Hk : keeps_id hf) by (intro; reflexivity).
+  set (n2 := set_conns n (upd_conn (n_conns n) cid hf)).
+  assert (E2 : get_conn n2 cid = Some (hf c)) by (unfold n2; rewrite get_conn_upd by exact Hk; now rewrite Ec).
+  assert (Hs : hostof n2 cid = Some host) by (rewrite (hostof_get _ _ _ E2); reflexivity).
+  assert (Ho : forall k, k <> cid -> hostof n2 k = hostof n k).
+  { intros k D. unfold hostof, n2. cbn [n_conns set_conns]. apply hostl_upd_other; auto. }
+  destruct (assign_Fr n2 cid) as [[F1 [F2 F3]] [F4 F5]].
+  split.
+  - intros k h Hk' Hh. apply F2 in Hk'; auto. destruct (Nat.eq_dec k cid) as [D|D].
+    + subst k. rewrite Hs in Hk'. inversion Hk'; subst h. destruct (Hown Hh) as [Hp Hc].
+      destruct (get_peer n host) as [p|] eqn:Ep; [clear Hp|congruence].
+      pose proof (assign_owner n2 cid (hf c) p E2 Hh Ep) as A. cbn [hf c_host set_cident] in A. rewrite A.
+      rewrite (owner_get _ _ _ Ep) in Hc. destruct Hc as [Hc|Hc]; rewrite Hc; reflexivity.
+    + rewrite Ho in Hk' by exact D. apply F3. exact (HZ _ _ Hk' Hh).
+  - eapply R_trans; [exact H|]. intros k h e o Hin. apply F4 in Hin. split; [exact Hin|].
+    intros [hk [A [B C]]]. exists hk. split; [|split; auto].
+    apply F1. destruct (Nat.eq_dec k cid) as [D|D].
+    + subst k. rewrite (hostof_get _ _ _ Ec) in A. inversion A; subst hk. rewrite Hs. f_equal. symmetry. now apply Hold.
+    + rewrite Ho; auto.
+Qed.
+
+Lemma upd_conn_none l cid f : List.find (fun c => Nat.eqb (c_id c) cid) l = None -> upd_conn l cid f = l.
+Proof.
+  induction l as [|a l IH]; cbn; auto. destruct (Nat.eqb (c_id a) cid); [discriminate|]. intros E. now rewrite IH.
+Qed.
+
+Lemma cer_tail_RS n0 n rivals cid host m pr : Good n ->
+  get_peer n host = Some pr ->
+  (forall c, get_conn n cid = Some c -> c_node_name c = host) ->
+  (forall c', List.In c' (n_conns n) -> c_id c' <> cid -> c_node_name c' = host -> List.In (c_id c') rivals) ->
+  ZR n0 n -> RS n0 (fst (cer_tail n rivals cid host m)) cid (m_hbh m) (m_e2e m).
+Proof.
+  intros HG Ep Hnm Hriv H. unfold cer_tail. dpair (close_all n rivals R_CLEAN).
+  set (n1 := fst (close_all n rivals R_CLEAN)).
+  assert (H1 : ZR n0 n1) by now apply close_all_ZR.
+  assert (HG1 : Good n1) by (eapply Good_trans; [apply close_all_t; constructor|exact HG]).
+  apply (match3 (fun x => RS n0 (fst x) cid (m_hbh m) (m_e2e m))).
   - match goal with |- context [send_message ?N ?C ?M] => dpair (send_message N C M) end. cbn [fst].
     now apply send_answer_RS.
   - cbv zeta. match goal with |- context [send_message ?N ?C ?M] => dpair (send_message N C M) end. cbn [fst].
-    apply send_answer_RS. apply flag_ready_R, assign_peer_conn_R. r_fr. exact H1.
+    apply send_answer_RS. apply flag_ready_ZR.
+    destruct (get_conn n1 cid) as [c1|] eqn:E1.
+    2:{ unfold get_conn in E1. rewrite (upd_conn_none _ _ _ E1).
+        replace (set_conns n1 (n_conns n1)) with n1 by (destruct n1; reflexivity).
+        unfold assign_peer_conn, get_conn. rewrite E1. exact H1. }
+    destruct (GC_parts _ (proj1 HG1)) as [_ [_ [_ [_ [Hid [Hlv _]]]]]].
+    pose proof (close_all_get _ _ _ _ _ E1 : get_conn n cid = Some c1) as E0.
+    eapply sethost_ZR; eauto.
+    + intros Hh. destruct (Hid c1 (proj1 (get_conn_some _ _ _ E1))) as [A|A]; [congruence|]. rewrite A. now apply Hnm.
+    + intros _. assert (Hp : get_peer n1 host <> None).
+      { apply find_name_in. unfold n1. rewrite close_all_names. destruct (get_peer_some _ _ _ Ep) as [A B].
+        rewrite <- B. now apply in_map. }
+      split; [exact Hp|]. destruct (get_peer n1 host) as [p|] eqn:Ep1; [|congruence].
+      rewrite (owner_get _ _ _ Ep1). destruct (p_conn p) as [k|] eqn:Ek; auto. right. f_equal.
+      destruct (get_peer_some _ _ _ Ep1) as [Hin En].
+      destruct (Hlv p k Hin Ek) as [c' [Hc' [Eid Enm]]].
+      destruct (close_all_in _ _ _ _ Hc') as [A B].
+      destruct (Nat.eq_dec k cid) as [D|D]; auto. exfalso. apply B. apply Hriv; congruence.
 Qed.
-Lemma recv_cer_RS n0 n cid m host : get_conn n cid <> None -> m_origin m = Present host -> R n0 n ->
-  RS n0 (fst (recv_cer n cid m)) (m_hbh m) (m_e2e m).
+
+Lemma recv_cer_RS n0 n cid m host : Good n -> get_conn n cid <> None -> m_origin m = Present host ->
+  (forall c, get_conn n cid = Some c -> c_state c = SConnected ->
+     c_recv c = true /\ (c_node_name c = host \/ c_node_name c = ""%string)) ->
+  ZR n0 n -> RS n0 (fst (recv_cer n cid m)) cid (m_hbh m) (m_e2e m).
 Proof.
-  intros Hc Eo H. unfold recv_cer. destruct (get_conn n cid) as [c0|]; [clear Hc|congruence].
-  destruct (negb _).
-  { cbn [fst]. split; [now apply drop_origin_R|left; apply drop_origin_clean]. }
-  rewrite Eo. cbn [pres_get]. destruct (get_peer n host) as [p|].
-  - cbv zeta. match goal with |- context [election_rivals ?N cid host] => set (nn := N) in * end.
-    assert (H1 : R n0 nn) by (subst nn; r_fr; exact H).
-    pose proof (cer_tail_RS n0 nn (election_rivals nn cid host) cid host m H1) as Htail.
+  intros HG Hc Eo Hpre H. unfold recv_cer. destruct (get_conn n cid) as [c0|] eqn:Ec0; [clear Hc|congruence].
+  destruct (cstate_eqb (c_state c0) SConnected) eqn:Es; cbn [negb].
+  2:{ cbn [fst]. split; [now apply drop_origin_ZR|left; apply drop_origin_clean]. }
+  assert (Es' : c_state c0 = SConnected) by (destruct (c_state c0); try discriminate; reflexivity).
+  destruct (Hpre c0 eq_refl Es') as [Hr Hg].
+  rewrite Eo. cbn [pres_get]. destruct (get_peer n host) as [p|] eqn:Ep.
+  - cbv zeta. fold (name_fn host).
+    match goal with |- context [election_rivals ?N cid host] => set (nn := N) in * end.
+    assert (H1 : ZR n0 nn) by (subst nn; unfold name_fn; z_fr H).
+    assert (HG1 : Good nn).
+    { eapply Good_trans; [|exact HG]. eapply t_a; [|constructor]. eapply A_name; eauto. exact I.
+      intros c E. rewrite Ec0 in E. inversion E; subst c. exact Hr. }
+    assert (Egn : get_conn nn cid = Some (name_fn host c0)).
+    { subst nn. rewrite get_conn_upd by apply keeps_id_name_fn. now rewrite Ec0. }
+    assert (Htail : RS n0 (fst (cer_tail nn (election_rivals nn cid host) cid host m)) cid (m_hbh m) (m_e2e m)).
+    { apply (cer_tail_RS n0 nn _ cid host m p); auto.
+      - intros c'. rewrite Egn. intros E; inversion E. unfold name_fn. destruct Hg as [D|D].
+        + destruct (String.eqb (c_node_name c0) ""); cbn; auto.
+        + rewrite D. cbn. auto.
+      - intros c' Hc' Hid Hn. unfold election_rivals. apply in_map. apply filter_In. split; auto.
+        apply andb_true_iff. split; [now apply negb_true_iff, Nat.eqb_neq|now apply String.eqb_eq]. }
     unfold cer_tail in Htail.
     destruct (election_rivals nn cid host) as [|k ks]; [exact Htail|].
     destruct (String.ltb host (g_host (n_cfg nn))); [exact Htail|].
-    apply send_answer_RS. r_fr. exact H1.
-  - cbv zeta. apply send_answer_RS. r_fr. exact H.
+    apply send_answer_RS. z_fr H1.
+  - cbv zeta. apply send_answer_RS. z_fr H.
 Qed.
 
-Lemma pw_add_R n0 n n1 host k : n_origin_waiting n1 = n_origin_waiting n ->
-  n_peer_waiting n1 = pw_add (n_peer_waiting n) host k -> R n0 n -> R n0 n1.
+Lemma recv_cea_ZR n0 n cid m : Good n ->
+  (forall c, get_conn n cid = Some c -> c_recv c = false \/ passes gm c) ->
+  ZR n0 n -> ZR n0 (fst (recv_cea n cid m)).
 Proof.
-  intros E1 E2 H. eapply R_trans; [exact H|]. intros h e o Hin. rewrite E1 in Hin. split; auto.
-  intros [hs Hb]. exists hs. rewrite E2, pw_get_add. destruct (String.eqb hs host); auto.
+  intros HG Hst H. unfold recv_cea. destruct (get_conn n cid) as [c0|] eqn:Ec; auto.
+  destruct (cstate_eqb (c_state c0) SConnected) eqn:Es; cbn [negb]; auto.
+  assert (Hr : c_recv c0 = false).
+  { destruct (Hst c0 eq_refl) as [Rr|[A|[A _]]]; auto; destruct (c_state c0); try discriminate; destruct A. }
+  apply (match_2001 (fun x => ZR n0 (fst x))); [|now apply close_conn_ZR].
+  destruct (m_origin m) as [| |host] eqn:Eo; cbn [pres_get fst]; auto.
+  match goal with |- context [if ?b then _ else _] => destruct b eqn:Econd end; [now apply close_conn_ZR|].
+  assert (Hok : id_ok c0 host).
+  { apply andb_false_iff in Econd. destruct Econd as [E|E]; apply negb_false_iff in E.
+    - right. split; auto. now apply String.eqb_eq.
+    - left. symmetry. now apply String.eqb_eq. }
+  cbv zeta. cbn [fst]. apply flag_ready_ZR.
+  destruct (GC_parts _ (proj1 HG)) as [[_ [Hn _]] [Hne [Ho [_ [Hid _]]]]].
+  destruct (get_conn_some _ _ _ Ec) as [Hin Eid].
+  assert (Enm : c_node_name c0 = host) by (eapply id_ok_eq; eauto).
+  eapply sethost_ZR; eauto.
+  - intros Hh. destruct (Hid c0 Hin) as [A|A]; congruence.
+  - intros _. destruct (Ho c0 Hin Hr) as [p [Hp [En Epc]]].
+    pose proof (get_peer_in n p Hn Hp) as Eg. rewrite En, Enm in Eg.
+    split; [congruence|]. right. rewrite (owner_get _ _ _ Eg). congruence.
+Qed.
+
+Lemma pw_add_Fr n n1 host k : n_conns n1 = n_conns n -> n_peers n1 = n_peers n ->
+  n_origin_waiting n1 = n_origin_waiting n -> n_peer_waiting n1 = pw_add (n_peer_waiting n) host k -> Fr n n1.
+Proof.
+  intros E1 E2 E3 E4. split; [apply FrZ_eq; intro; now rewrite ?E1, ?E2|]. rewrite E3. split; [apply incl_refl|].
+  intros hs x Hb. rewrite E4, pw_get_add. destruct (String.eqb hs host); auto.
   destruct (mem_zz k _); auto. rewrite mem_zz_app, Hb. reflexivity.
 Qed.
-Lemma pw_add_bk n1 pw host h e : n_peer_waiting n1 = pw_add pw host (h, e) -> bk n1 h e.
+Lemma pw_add_bk n1 n cid c h e : n_conns n1 = n_conns n -> get_conn n cid = Some c -> c_host c <> ""%string ->
+  n_peer_waiting n1 = pw_add (n_peer_waiting n) (c_host c) (h, e) -> bk n1 cid h e.
 Proof.
-  intros E. exists host. rewrite E, pw_get_add, String.eqb_refl.
-  destruct (mem_zz (h, e) (pw_get pw host)) eqn:Em; auto. rewrite mem_zz_app, mem_zz_self. apply orb_true_r.
+  intros E1 Ec Hh E. exists (c_host c). split; [|split; auto].
+  - unfold hostof. rewrite E1. now apply hostof_get.
+  - rewrite E, pw_get_add, String.eqb_refl.
+    destruct (mem_zz (h, e) (pw_get (n_peer_waiting n) (c_host c))) eqn:Em; auto.
+    rewrite mem_zz_app, mem_zz_self. apply orb_true_r.
 Qed.
-Lemma bk_R n n' h e o : R n n' -> List.In (h, e, o) (n_origin_waiting n') -> bk n h e -> bk n' h e.
-Proof. intros HR Hin. destruct (HR _ _ _ Hin) as [_ B]. exact B. Qed.
 
-Lemma recv_app_request_RS n0 n cid m : get_conn n cid <> None -> R n0 n ->
-  RS n0 (fst (recv_app_request n cid m)) (m_hbh m) (m_e2e m).
+Lemma recv_app_request_RS n0 n cid m : get_conn n cid <> None ->
+  (forall c, get_conn n cid = Some c -> c_host c <> ""%string) -> ZR n0 n ->
+  RS n0 (fst (recv_app_request n cid m)) cid (m_hbh m) (m_e2e m).
 Proof.
-  intros Hc H. unfold recv_app_request. destruct (get_conn n cid) as [c|]; [clear Hc|congruence].
+  intros Hc Hh H. unfold recv_app_request. destruct (get_conn n cid) as [c|] eqn:Ec; [clear Hc|congruence].
   destruct (m_drealm m); try now apply send_answer_RS.
   destruct (route_lookup n a); try now apply send_answer_RS.
   destruct (List.find _ l) as [[[i|] x]|]; try now apply send_answer_RS.
   cbv zeta.
-  match goal with |- context [send_message ?N cid _] => assert (H1 : R n0 N) end.
-  { eapply pw_add_R; [| |exact H]; reflexivity. }
+  match goal with |- context [send_message ?N cid _] => assert (H1 : ZR n0 N) end.
+  { eapply Fr_ZR; [|exact H]. eapply pw_add_Fr; reflexivity. }
   destruct (handler_raises m); cbn [fst].
   - match goal with |- context [send_message ?N ?C ?M] => dpair (send_message N C M) end. cbn [fst].
     now apply send_answer_RS.
-  - split; [exact H1|]. right. eapply pw_add_bk. reflexivity.
+  - split; [exact H1|]. right. apply (pw_add_bk _ n cid c); [reflexivity|exact Ec|exact (Hh c eq_refl)|reflexivity].
 Qed.
 
-Lemma record_obx n h0 e0 o n1 : ob n -> n_peer_waiting n1 = n_peer_waiting n ->
+Lemma record_obx n k0 h0 e0 o n1 : ob n -> n_conns n1 = n_conns n -> n_peer_waiting n1 = n_peer_waiting n ->
   n_origin_waiting n1 =
-    (List.filter (fun x => let '(h, e, _) := x in negb ((h =? h0)%Z && (e =? e0)%Z)) (n_origin_waiting n) ++ [(h0, e0, o)])%list ->
-  obx n1 h0 e0.
+    (List.filter (fun x => negb (ow_key k0 h0 e0 x)) (n_origin_waiting n) ++ [(k0, h0, e0, o)])%list ->
+  obx n1 k0 h0 e0.
 Proof.
-  intros H E1 E2 h e o1 Hin. rewrite E2 in Hin. apply in_app_or in Hin. destruct Hin as [Hin|[Hin|[]]].
-  - apply in_ofilter in Hin. destruct Hin as [Hin _]. right. destruct (H _ _ _ Hin) as [hs Hb]. exists hs. now rewrite E1.
+  intros H E0 E1 E2 k h e o1 Hin. rewrite E2 in Hin. apply in_app_or in Hin. destruct Hin as [Hin|[Hin|[]]].
+  - apply in_ofilter in Hin. destruct Hin as [Hin _]. right. destruct (H _ _ _ _ Hin) as [hs Hb]. exists hs.
+    unfold hostof. now rewrite E0, E1.
   - inversion Hin. auto.
 Qed.
 
-Lemma receive_message_ob n cid m : get_conn n cid <> None -> ob n -> ob (fst (receive_message n cid m)).
+Definition Zob (n : node) : Prop := Zo n /\ ob n.
+
+Lemma receive_message_ob n cid m : Good n -> msg_pre gm n cid m ->
+  (forall c, get_conn n cid = Some c -> gate_passes c m = true) ->
+  get_conn n cid <> None -> Zob n -> Zob (fst (receive_message n cid m)).
 Proof.
-  intros Hget H. unfold receive_message. cbv zeta.
+  intros HG [Hnc Hpre] Hgate Hget [HZ H]. unfold receive_message. cbv zeta.
   match goal with |- context [g_validate (n_cfg ?N)] => set (n1 := N) end.
-  assert (Hc : get_conn n1 cid <> None).
+  assert (Hc : get_conn n1 cid = get_conn n cid).
   { subst n1. destruct (m_origin m); auto; destruct (m_req m); auto. }
-  assert (Hx : obx n1 (m_hbh m) (m_e2e m)).
+  assert (HG1 : Good n1).
+  { eapply Good_trans; [|exact HG]. subst n1. destruct (m_origin m); try constructor; destruct (m_req m); try constructor;
+      (eapply t_a; [apply A_wait|constructor]; [apply incl_refl|now left]). }
+  assert (HZ1 : ZR n1 n1).
+  { split; [|apply R_refl]. eapply FrZ_Zo; [|exact HZ]. apply FrZ_eq; intro; subst n1;
+      destruct (m_origin m); try reflexivity; destruct (m_req m); reflexivity. }
+  assert (Hx : obx n1 cid (m_hbh m) (m_e2e m)).
   { subst n1. destruct (m_origin m); try (now apply ob_obx); destruct (m_req m); try (now apply ob_obx);
       eapply record_obx; eauto; reflexivity. }
-  assert (FinS : forall n', RS n1 n' (m_hbh m) (m_e2e m) -> ob n').
-  { intros n' [HR HS]. eapply obx_settled; [eapply obx_R; eauto|exact HS]. }
-  assert (FinR : m_req m = false -> forall n', R n1 n' -> ob n').
-  { intros Er n' HR. eapply ob_R; [exact HR|]. subst n1. rewrite Er. destruct (m_origin m); exact H. }
-  clearbody n1. clear H Hget Hx.
+  assert (FinS : forall n', RS n1 n' cid (m_hbh m) (m_e2e m) -> Zob n').
+  { intros n' [[HZ' HR] HS]. split; [exact HZ'|]. eapply obx_settled; [eapply obx_R; eauto|exact HS]. }
+  assert (FinR : m_req m = false -> forall n', ZR n1 n' -> Zob n').
+  { intros Er n' [HZ' HR]. split; [exact HZ'|]. eapply ob_R; [exact HR|]. subst n1. rewrite Er. destruct (m_origin m); exact H. }
+  assert (Hcase : forall c, get_conn n1 cid = Some c -> passes gm c \/
+            (c_state c = SConnected /\ m_cmd m = CE /\ (if c_recv c then m_req m = true else m_req m = false))).
+  { intros c Ec. rewrite Hc in Ec. apply gate_passes_cases; [apply Hgate; auto|intros G; eapply Hnc; eauto]. }
+  rewrite <- Hc in Hpre, Hget.
+  clearbody n1. clear H Hx HZ HG Hnc Hgate Hc.
   destruct (if m_req m && g_validate (n_cfg n1) then m_missing m else []);
-    [|apply FinS, send_answer_RS, R_refl].
-  match goal with |- context [if ?b then _ else _] => destruct b end; [apply FinS, send_answer_RS, R_refl|].
+    [|now apply FinS, send_answer_RS].
+  match goal with |- context [if ?b then _ else _] => destruct b end; [now apply FinS, send_answer_RS|].
   destruct (m_req m) eqn:Er, (m_cmd m) eqn:Em.
-  - destruct (m_origin m) eqn:Eo; try (apply FinS, send_answer_RS, R_refl).
-    apply FinS. eapply recv_cer_RS; eauto. apply R_refl.
-  - apply FinS, recv_dwr_RS, R_refl.
-  - apply FinS, recv_dpr_RS, R_refl.
-  - apply FinS, recv_app_request_RS; [exact Hc|apply R_refl].
-  - apply FinR; auto. apply recv_cea_R, R_refl.
-  - apply FinR; auto. apply recv_dwa_R, R_refl.
-  - apply FinR; auto. apply recv_dpa_R, R_refl.
-  - apply FinR; auto. apply recv_app_answer_R, R_refl.
+  - destruct (m_origin m) eqn:Eo; try (now apply FinS, send_answer_RS).
+    apply FinS. eapply recv_cer_RS; eauto. intros c Ec Es.
+    assert (Hrc : c_recv c = true).
+    { destruct (Hcase c Ec) as [[A|[A _]]|[_ [_ A]]].
+      - rewrite Es in A. destruct A.
+      - rewrite Es in A. discriminate.
+      - destruct (c_recv c); [reflexivity|discriminate]. }
+    split; [exact Hrc|]. destruct (Hpre eq_refl eq_refl c a Ec Es Hrc eq_refl) as [_ B]. exact (B I).
+  - now apply FinS, recv_dwr_RS.
+  - now apply FinS, recv_dpr_RS.
+  - apply FinS, recv_app_request_RS; auto. intros c Ec.
+    destruct HG1 as [_ [_ [_ [_ [Hkh _]]]]]. apply Hkh; [exact (proj1 (get_conn_some _ _ _ Ec))|].
+    destruct (Hcase c Ec) as [[A|[_ A]]|[_ [A _]]]; [exact A|destruct (A I)|discriminate].
+  - apply FinR; auto. apply recv_cea_ZR; auto.
+    intros c Ec. destruct (Hcase c Ec) as [A|[_ [_ A]]]; auto. destruct (c_recv c); [discriminate|auto].
+  - apply FinR; auto. now apply recv_dwa_ZR.
+  - apply FinR; auto. now apply recv_dpa_ZR.
+  - apply FinR; auto. now apply recv_app_answer_ZR.
 Qed.
 
-Lemma dispatch_ob n cid m : ob n -> ob (fst (dispatch n cid m)).
+Lemma dispatch_ob n cid m : Good n -> msg_pre gm n cid m -> Zob n -> Zob (fst (dispatch n cid m)).
 Proof.
-  intros H. unfold dispatch. destruct (get_conn n cid) as [c|] eqn:Ec; auto.
-  destruct (gate_passes c m); auto. apply receive_message_ob; auto. congruence.
+  intros HG Hp H. unfold dispatch. destruct (get_conn n cid) as [c|] eqn:Ec; auto.
+  destruct (gate_passes c m) eqn:Eg; auto. apply receive_message_ob; auto; [|congruence].
+  intros c' E. rewrite Ec in E. inversion E; subst c'. exact Eg.
 Qed.
-Lemma dispatch_all_ob ms : forall n cid, ob n -> ob (fst (dispatch_all n cid ms)).
+Lemma dispatch_all_ob ms : forall n cid, Good n -> msgs_pre gm n cid ms -> Zob n -> Zob (fst (dispatch_all n cid ms)).
 Proof.
-  induction ms as [|m r IH]; intros n cid H; cbn [dispatch_all fst]; auto.
-  dpair (dispatch n cid m). dpair (dispatch_all (fst (dispatch n cid m)) cid r).
-  cbn [fst]. apply IH. now apply dispatch_ob.
+  induction ms as [|m r IH]; intros n cid HG Hp H; cbn [dispatch_all fst]; auto.
+  destruct Hp as [Hm Hr]. dpair (dispatch n cid m). dpair (dispatch_all (fst (dispatch n cid m)) cid r).
+  cbn [fst]. apply IH; auto; [|now apply dispatch_ob].
+  eapply Good_trans; [|exact HG]. apply dispatch_t; [exact Hm|constructor].
 Qed.
-
-Lemma wake_R target : forall fuel n0 n ds acc, R n0 n ->
-  R n0 (fst ((fix wake (fuel : nat) (n : node) (ds : dials) (acc : list output) {struct fuel} : node * list output :=
+Lemma wake_ZR target : forall fuel n0 n ds acc, ZR n0 n ->
+  ZR n0 (fst ((fix wake (fuel : nat) (n : node) (ds : dials) (acc : list output) {struct fuel} : node * list output :=
          let expire := fun (n : node) =>
            set_apps n (List.map (fun a => set_awaiting a (List.filter (fun w => (target <? snd w)%Z) (a_waiting a))) (n_apps n)) in
          match fuel with
@@ -3137,15 +3463,15 @@ Lemma wake_R target : forall fuel n0 n ds acc, R n0 n ->
          end) fuel n ds acc)).
 Proof.
   induction fuel as [|f IH]; intros n0 n ds acc H.
-  - cbn [fst]. r_fr. exact H.
+  - cbn [fst]. z_fr H.
   - destruct (n_io_deadline n <=? target)%Z.
     + cbv zeta. dtriple (settle (set_time n (n_io_deadline n) (n_io_deadline n)) ds).
-      apply IH. apply settle_R. r_fr. exact H.
-    + cbn [fst]. r_fr. exact H.
+      apply IH. apply settle_ZR. z_fr H.
+    + cbn [fst]. z_fr H.
 Qed.
 
-Lemma stop_go_R cids : forall n0 n acc, R n0 n ->
-  R n0 (fst ((fix go (cids : list nat) (n : node) (acc : list output) {struct cids} : node * list output :=
+Lemma stop_go_ZR cids : forall n0 n acc, ZR n0 n ->
+  ZR n0 (fst ((fix go (cids : list nat) (n : node) (acc : list output) {struct cids} : node * list output :=
              match cids with
              | [] => (n, acc)
              | c :: r => match get_conn n c with
@@ -3159,22 +3485,22 @@ Proof.
   induction cids as [|c r IH]; intros n0 n acc H; [exact H|].
   destruct (get_conn n c) as [cn|] eqn:Ec; [|now apply IH].
   destruct (is_ready_state (c_state cn)) eqn:Er; [|now apply IH].
-  dpair (send_dpr n c). apply IH. now apply send_dpr_R.
+  dpair (send_dpr n c). apply IH. now apply send_dpr_ZR.
 Qed.
 
-Lemma finish_go_R cids : forall n0 n acc, R n0 n ->
-  R n0 (fst ((fix go (cids : list nat) (n : node) (acc : list output) {struct cids} : node * list output :=
+Lemma finish_go_ZR cids : forall n0 n acc, ZR n0 n ->
+  ZR n0 (fst ((fix go (cids : list nat) (n : node) (acc : list output) {struct cids} : node * list output :=
            match cids with
            | [] => (n, acc)
            | c :: r => let '(n', o') := close_conn n c R_SHUTDOWN in go r n' (acc ++ o')%list
            end) cids n acc)).
 Proof.
   induction cids as [|c r IH]; intros n0 n acc H; [exact H|].
-  dpair (close_conn n c R_SHUTDOWN). apply IH. now apply close_conn_R.
+  dpair (close_conn n c R_SHUTDOWN). apply IH. now apply close_conn_ZR.
 Qed.
 
-Lemma start_go_R names : forall n0 n ds acc, R n0 n ->
-  R n0 (fst (fst ((fix go (names : list string) (n : node) (ds : dials) (acc : list output) {struct names} : node * list output * dials :=
+Lemma start_go_ZR names : forall n0 n ds acc, ZR n0 n ->
+  ZR n0 (fst (fst ((fix go (names : list string) (n : node) (ds : dials) (acc : list output) {struct names} : node * list output * dials :=
            match names with
            | [] => (n, acc, ds)
            | nm :: r =>
@@ -3194,119 +3520,196 @@ Proof.
   destruct (get_peer n nm) as [p|]; [|now apply IH].
   destruct (p_persistent p); [|now apply IH].
   destruct ds as [|[h0 res] dr].
-  - dpair (connect_to_peer n nm 0%Z DialOk). apply IH. now apply connect_to_peer_R.
-  - dpair (connect_to_peer n nm h0 res). apply IH. now apply connect_to_peer_R.
+  - dpair (connect_to_peer n nm 0%Z DialOk). apply IH. now apply connect_to_peer_ZR.
+  - dpair (connect_to_peer n nm h0 res). apply IH. now apply connect_to_peer_ZR.
 Qed.
 
 (* the event discipline: what Application.send_answer sends is an answer *)
 Definition ans_ok (e : event) : Prop := match e with EAppAnswer _ m => o_req m = false | _ => True end.
 
-Lemma take_obx n n1 host h e : ob n -> n_origin_waiting n1 = n_origin_waiting n ->
-  n_peer_waiting n1 = pw_remove (n_peer_waiting n) host (h, e) -> obx n1 h e.
+(* route_answer takes the waiting entry (h, e) of `host` *)
+Lemma take_bk n n1 host h e k h1 e1 : (forall k, hostof n1 k = hostof n k) ->
+  n_peer_waiting n1 = pw_remove (n_peer_waiting n) host (h, e) ->
+  bk n k h1 e1 -> hostof n k = Some host \/ bk n1 k h1 e1.
 Proof.
-  intros H E1 E2 h1 e1 o1 Hin. rewrite E1 in Hin.
-  destruct (Z.eq_dec h1 h) as [A|A]; [destruct (Z.eq_dec e1 e) as [B|B]; [now left|]|];
-    right; (eapply bk_pw_remove; [exact E2|tauto|eauto]).
+  intros Hh Hp [hk [A [B C]]]. destruct (String.eqb hk host) eqn:Eh.
+  - apply String.eqb_eq in Eh. subst hk. now left.
+  - right. exists hk. rewrite Hh, Hp, pw_get_remove, Eh. auto.
+Qed.
+Lemma take_obx n n1 k0 host h e : Zo n -> ob n -> hostof n k0 = Some host ->
+  (forall k, hostof n1 k = hostof n k) -> n_origin_waiting n1 = n_origin_waiting n ->
+  n_peer_waiting n1 = pw_remove (n_peer_waiting n) host (h, e) -> obx n1 k0 h e.
+Proof.
+  intros HZ H Hk0 Hh Ho Hp k h1 e1 o Hin. rewrite Ho in Hin. pose proof (H _ _ _ _ Hin) as Hb.
+  destruct (take_bk n n1 host h e k h1 e1 Hh Hp Hb) as [A|A]; [|now right].
+  destruct Hb as [hk [B [C D]]]. rewrite A in B. inversion B; subst hk.
+  assert (k = k0) by (eapply Zo_uh; eauto). subst k.
+  destruct (Z.eq_dec h1 h) as [E1|E1]; [destruct (Z.eq_dec e1 e) as [E2|E2]; [now left|]|];
+    right; exists host; rewrite Hh, Hp, pw_get_remove, String.eqb_refl; (split; [exact A|split; [exact C|]]);
+    (apply mem_zz_remove; [exact D|cbn; intros [X Y]; congruence]).
 Qed.
 
-Lemma step_answer_ob n ds i m : o_req m = false -> ob n -> ob (fst (step n ds (EAppAnswer i m))).
+Lemma step_answer_ob n ds i m : Good n -> o_req m = false -> Zob n -> Zob (fst (step n ds (EAppAnswer i m))).
 Proof.
-  intros Eq H. unfold step, route_answer. destruct (List.find _ (n_peer_waiting n)) as [[host l]|]; cbn [fst]; auto.
-  match goal with |- context [List.find _ (n_conns ?N)] => assert (H1 : obx N (o_hbh m) (o_e2e m)) end.
-  { eapply take_obx; eauto; reflexivity. }
-  assert (Hd : forall N, obx N (o_hbh m) (o_e2e m) -> ob (drop_origin N (o_hbh m) (o_e2e m))).
-  { intros N HN. eapply obx_settled; [eapply obx_R; [apply drop_origin_R, R_refl|exact HN]|left; apply drop_origin_clean]. }
-  destruct (List.find _ (n_conns _)) as [c|]; cbn [fst]; [|now apply Hd].
-  destruct (is_ready_state (c_state c)); cbn [fst]; [|now apply Hd].
-  match goal with |- context [send_message ?N ?C ?M] => dpair (send_message N C M) end.
-  match goal with |- context [settle_app' ?N ?D] => dpair (settle_app' N D) end. cbn [fst].
-  eapply ob_R; [apply settle_app'_R, R_refl|].
-  eapply obx_settled; [eapply obx_R; [apply send_message_R, R_refl|exact H1]|].
-  left. now apply send_message_clean.
+  intros HG Eq [HZ H]. unfold step, route_answer.
+  destruct (List.find _ (n_peer_waiting n)) as [[host l]|]; cbn [fst]; [|split; auto].
+  match goal with |- context [List.find _ (n_conns ?N)] => set (n1 := N) end.
+  assert (Hh : forall k, hostof n1 k = hostof n k) by reflexivity.
+  assert (HZ1 : ZR n1 n1) by (split; [exact HZ|apply R_refl]).
+  destruct (List.find _ (n_conns n1)) as [c|] eqn:Ef; cbn [fst].
+  - apply find_some in Ef. destruct Ef as [Hin Eh]. apply String.eqb_eq in Eh.
+    destruct (GC_parts _ (proj1 HG)) as [[[Hnd _] _] _].
+    assert (Hk0 : hostof n (c_id c) = Some host).
+    { rewrite <- Eh. apply hostof_get. unfold get_conn. now apply find_conn_in. }
+    assert (H1 : obx n1 (c_id c) (o_hbh m) (o_e2e m)) by (eapply take_obx; eauto; reflexivity).
+    destruct (is_ready_state (c_state c)); cbn [fst].
+    + match goal with |- context [send_message ?N ?C ?M] => dpair (send_message N C M) end.
+      match goal with |- context [settle_app' ?N ?D] => dpair (settle_app' N D) end. cbn [fst].
+      pose proof (send_message_ZR n1 n1 (c_id c) m HZ1) as HS.
+      pose proof (settle_app'_ZR n1 _ ds HS) as [HZ' HR]. split; [exact HZ'|].
+      eapply ob_R; [apply (settle_app'_ZR _ _ ds (conj (proj1 HS) (R_refl _)))|].
+      eapply obx_settled; [eapply obx_R; [exact (proj2 HS)|exact H1]|].
+      left. now apply send_message_clean.
+    + pose proof (drop_origin_ZR n1 n1 (c_id c) (o_hbh m) (o_e2e m) HZ1) as [HZ' HR]. split; [exact HZ'|].
+      eapply obx_settled; [eapply obx_R; [exact HR|exact H1]|left; apply drop_origin_clean].
+  - split; [exact HZ|]. intros k h1 e1 o Hin. change (List.In (k, h1, e1, o) (n_origin_waiting n)) in Hin.
+    pose proof (H _ _ _ _ Hin) as Hb.
+    destruct (take_bk n n1 host (o_hbh m) (o_e2e m) k h1 e1 Hh eq_refl Hb) as [A|A]; [|exact A].
+    exfalso. apply hostof_some in A. destruct A as [c [Ec Eh]].
+    pose proof (find_none _ _ Ef c (proj1 (get_conn_some _ _ _ Ec))) as C. cbn in C.
+    rewrite Eh, String.eqb_refl in C. discriminate.
 Qed.
+Lemma Zob_ZR n n' : ZR n n' -> ob n -> Zob n'.
+Proof. intros [A B] H. split; [exact A|eapply ob_R; eauto]. Qed.
 
-Lemma step_ob n ds e : ans_ok e -> ob n -> ob (fst (step n ds e)).
+Lemma step_ob n ds e : Good n -> ev_pre gm n ds e -> ans_ok e -> Zob n -> Zob (fst (step n ds e)).
 Proof.
-  intros Hok H0. destruct e; try (now apply step_answer_ob).
+  intros HG Hpre Hok [HZ H0]. destruct e; try (now apply step_answer_ob).
   2: { (* ERecv *)
-    unfold step. destruct (get_conn n cid); auto.
+    unfold step. destruct (get_conn n cid); [|split; auto].
     dtriple (io_iteration n ds).
     match goal with |- context [dispatch_all ?N cid ms] => dpair (dispatch_all N cid ms) end.
     match goal with |- context [settle' ?N ?D] => dpair (settle' N D) end. cbn [fst].
-    eapply ob_R; [apply settle'_R, R_refl|]. apply dispatch_all_ob.
-    eapply ob_R; [|exact H0]. unfold upd_last_read. r_fr. apply io_iteration_R, R_refl. }
-  all: (eapply ob_R; [|exact H0]); pose proof (R_refl n) as H; unfold step.
+    assert (Hr : ZR n (upd_last_read (fst (fst (io_iteration n ds))) cid)).
+    { unfold upd_last_read. match goal with |- ZR _ (set_conns ?N _) => z_frs N end.
+      apply io_iteration_ZR. split; [exact HZ|apply R_refl]. }
+    assert (HGr : Good (upd_last_read (fst (fst (io_iteration n ds))) cid)).
+    { eapply Good_trans; [|exact HG]. unfold upd_last_read. t_soft. apply io_iteration_t. constructor. }
+    pose proof (dispatch_all_ob ms _ cid HGr Hpre (Zob_ZR _ _ Hr H0)) as [HZ3 H3].
+    eapply Zob_ZR; [|exact H3]. apply settle'_ZR. split; [exact HZ3|apply R_refl]. }
+  all: (eapply Zob_ZR; [|exact H0]); assert (H : ZR n n) by (split; [exact HZ|apply R_refl]); unfold step.
   - (* EAccept *)
-    destruct (n_stopping n); cbn [fst]; [r_fr; exact H|]. apply settle'_R. r_fr. exact H.
+    destruct (n_stopping n); cbn [fst]; [z_fr H|]. apply settle'_ZR.
+    eapply Fr_ZR; [|exact H]. eapply Fr_new; try reflexivity. auto.
   - (* EPeerClose *)
     dpair (close_conn n cid R_GONE). match goal with |- context [settle' ?N ?D] => dpair (settle' N D) end. cbn [fst].
-    apply settle'_R. now apply close_conn_R.
+    apply settle'_ZR. now apply close_conn_ZR.
   - (* EReadErr *)
-    match goal with |- context [let '(n1, o1) := ?X in _] => assert (H1 : R n (fst X)); [|dpair X] end.
-    { destruct hard; auto. now apply close_conn_R. }
+    match goal with |- context [let '(n1, o1) := ?X in _] => assert (H1 : ZR n (fst X)); [|dpair X] end.
+    { destruct hard; auto. now apply close_conn_ZR. }
     match goal with |- context [settle' ?N ?D] => dpair (settle' N D) end. cbn [fst].
-    now apply settle'_R.
+    now apply settle'_ZR.
   - (* EConnDone *)
     destruct (get_conn n cid) as [c|] eqn:Ec; auto. destruct (cstate_eqb (c_state c) SConnecting) eqn:Esc; auto.
     destruct ok.
     + cbv zeta.
-      match goal with |- context [send_cer ?N cid] => assert (H1 : R n N); [|dpair (send_cer N cid)] end.
-      { destruct (find_conn_peer _ c); r_fr; exact H. }
+      match goal with |- context [send_cer ?N cid] => assert (H1 : ZR n N); [|dpair (send_cer N cid)] end.
+      { destruct (find_conn_peer _ c); z_fr H. }
       match goal with |- context [io_iteration ?N ?D] => dtriple (io_iteration N D) end.
       match goal with |- context [settle' ?N ?D] => dpair (settle' N D) end. cbn [fst].
-      apply settle'_R. apply io_iteration_R. now apply send_cer_R.
+      apply settle'_ZR. apply io_iteration_ZR. now apply send_cer_ZR.
     + dpair (close_conn n cid R_FAILED_CONNECT).
       match goal with |- context [settle' ?N ?D] => dpair (settle' N D) end. cbn [fst].
-      apply settle'_R. now apply close_conn_R.
+      apply settle'_ZR. now apply close_conn_ZR.
   - (* EStall *)
     destruct (get_conn n cid) as [c|]; auto. cbv zeta.
-    match goal with |- context [settle' ?N ds] => assert (H1 : R n N) by (r_fr; exact H) end.
-    destruct b; auto. destruct (c_out c); auto. now apply settle'_R.
+    match goal with |- context [settle' ?N ds] => assert (H1 : ZR n N) by (z_fr H) end.
+    destruct b; auto. destruct (c_out c); auto. now apply settle'_ZR.
   - (* ETick *)
-    exact (wake_R (n_now n + dt)%Z (S (Z.to_nat dt)) n n ds [] H).
+    exact (wake_ZR (n_now n + dt)%Z (S (Z.to_nat dt)) n n ds [] H).
   - (* EAppRequest *)
-    match goal with |- context [let '(n0, e2e) := ?X in _] => assert (H1 : R n (fst X)); [|destruct X as [n1 e2e]; cbn [fst] in H1] end.
-    { destruct (o_e2e m =? 0)%Z; cbn [fst]; auto. }
+    match goal with |- context [let '(n0, e2e) := ?X in _] => assert (H1 : ZR n (fst X)); [|destruct X as [n1 e2e]; cbn [fst] in H1] end.
+    { destruct (o_e2e m =? 0)%Z; cbn [fst]; [z_fr H|exact H]. }
     destruct (route_request n1 app realm) as [[|p0 l]|]; auto.
     match goal with |- context [match ?X with Some p => _ | None => (n1, [ONotRoutable]) end] => destruct X as [p|]; auto end.
     destruct (p_conn p) as [cid|]; auto. destruct (get_conn n1 cid) as [c|]; auto.
-    match goal with |- context [let '(n1, hbh) := ?X in _] => assert (H2 : R n (fst X)); [|destruct X as [n2 hbh]; cbn [fst] in H2] end.
-    { destruct (o_hbh m =? 0)%Z; cbn [fst]; auto. }
+    match goal with |- context [let '(n1, hbh) := ?X in _] => assert (H2 : ZR n (fst X)); [|destruct X as [n2 hbh]; cbn [fst] in H2] end.
+    { destruct (o_hbh m =? 0)%Z; cbn [fst]; [z_fr H1|exact H1]. }
     cbv zeta.
     match goal with |- context [send_message ?N ?C ?M] => dpair (send_message N C M) end.
     match goal with |- context [settle_app' ?N ?D] => dpair (settle_app' N D) end. cbn [fst].
-    apply settle_app'_R. apply send_message_R. r_fr. exact H2.
+    apply settle_app'_ZR. apply send_message_ZR. z_fr H2.
   - (* EStop *)
-    cbv zeta. assert (H1 : R n (set_misc n true (n_next_cid n) (n_e2e n))) by (r_fr; exact H).
+    cbv zeta. assert (H1 : ZR n (set_misc n true (n_next_cid n) (n_e2e n))) by (z_fr H).
     destruct force; auto.
-    match goal with |- context [let '(n1, o1) := ?X in _] => assert (H2 : R n (fst X)); [|dpair X] end.
-    { now apply stop_go_R. }
+    match goal with |- context [let '(n1, o1) := ?X in _] => assert (H2 : ZR n (fst X)); [|dpair X] end.
+    { now apply stop_go_ZR. }
     match goal with |- context [settle' ?N ?D] => dpair (settle' N D) end. cbn [fst].
-    now apply settle'_R.
+    now apply settle'_ZR.
   - (* EStopFinish *)
     cbv zeta.
-    match goal with |- context [let '(n1, o1) := ?X in _] => assert (H2 : R n (fst X)); [|dpair X] end.
-    { apply finish_go_R. r_fr. exact H. }
-    cbn [fst]. r_fr. exact H2.
+    match goal with |- context [let '(n1, o1) := ?X in _] => assert (H2 : ZR n (fst X)); [|dpair X] end.
+    { apply finish_go_ZR. z_fr H. }
+    cbn [fst]. z_fr H2.
   - (* EStart *)
-    match goal with |- R _ (fst (match ?X with _ => _ end)) => assert (H2 : R n (fst (fst X))); [|dtriple X] end.
-    { now apply start_go_R. }
+    match goal with |- ZR _ (fst (match ?X with _ => _ end)) => assert (H2 : ZR n (fst (fst X))); [|dtriple X] end.
+    { now apply start_go_ZR. }
     match goal with |- context [settle' ?N ?D] => dpair (settle' N D) end. cbn [fst].
-    now apply settle'_R.
+    now apply settle'_ZR.
 Qed.
 
+(* the precondition of a guarded event (as in step_guarded) *)
+Lemma guard_ev_pre n ds e : W n -> ev_guard true true n ds e -> ev_pre gm n ds e \/ fst (step n ds e) = n.
+Proof.
+  intros HW Hg. destruct e; try (left; exact I).
+  destruct (get_conn n cid) as [c|] eqn:Ec.
+  2:{ right. unfold step. rewrite Ec. reflexivity. }
+  left. cbn [ev_guard] in Hg. destruct (Hg c Ec) as [Hst Hid].
+  destruct (get_conn_some _ _ _ Ec) as [Hin Eid].
+  assert (Hlt : cid < n_next_cid n) by (destruct HW as [[_ Hlt] _]; apply Hlt in Hin; lia).
+  cbn [ev_pre]. fold (read_state n ds cid) in *. set (n1 := read_state n ds cid) in *.
+  apply (cers_ok_msgs_pre true); [|exact Hid]. intros G. eapply (trans_ncon gm cid n).
+  - unfold n1, read_state, upd_last_read. t_soft. apply io_iteration_t. constructor.
+  - split; [exact Hlt|]. intros c' E'. rewrite Ec in E'. inversion E'; subst c'. exact Hst.
+Qed.
+
+Definition ans_disc (evs : list (dials * event)) : Prop := Forall (fun de => ans_ok (snd de)) evs.
+
+Lemma run_Zob evs : forall n, Good n -> ce_guard n evs -> ans_disc evs -> Zob n -> Zob (fst (run n evs)).
+Proof.
+  induction evs as [|de r IH]; intros n HG Hc Hd H; [exact H|].
+  destruct Hc as [H1 H2]. inversion Hd; subst. rewrite run_cons.
+  assert (HW : W n) by (destruct (GC_parts _ (proj1 HG)); assumption).
+  apply IH; auto.
+  - eapply Good_trans; [|exact HG]. apply (step_guarded true true); auto.
+  - destruct (guard_ev_pre n (fst de) (snd de) HW H1) as [Hp|E]; [now apply step_ob|now rewrite E].
+Qed.
+
+(* C19: every entry (k, h, e, o) of the origin table is backed by the waiting table of ITS connection: connection k
+   exists, has a host identity, and the (first) entry of _peer_waiting for that host lists the pair (h, e) *)
 Definition origin_backed (n : node) : Prop :=
-  forall h e o, List.In (h, e, o) (n_origin_waiting n) ->
+  forall k h e o, List.In (k, h, e, o) (n_origin_waiting n) ->
+    exists c, get_conn n k = Some c /\ c_host c <> ""%string /\
+              mem_zz (h, e) (pw_get (n_peer_waiting n) (c_host c)) = true.
+(* the weaker form: some connection has the id, some entry of _peer_waiting lists the pair *)
+Definition origin_backed_in (n : node) : Prop :=
+  forall k h e o, List.In (k, h, e, o) (n_origin_waiting n) ->
+    (exists c, List.In c (n_conns n) /\ c_id c = k) /\
     exists host l, List.In (host, l) (n_peer_waiting n) /\ mem_zz (h, e) l = true.
 
 Lemma ob_origin_backed n : ob n -> origin_backed n.
 Proof.
-  intros H h e o Hin. destruct (H _ _ _ Hin) as [host Hb]. unfold pw_get in Hb.
-  destruct (List.find _ (n_peer_waiting n)) as [[hs l]|] eqn:E; [|discriminate].
-  apply find_some in E. destruct E as [E _]. eauto.
+  intros H k h e o Hin. destruct (H _ _ _ _ Hin) as [host [A [B C]]].
+  apply hostof_some in A. destruct A as [c [Ec Eh]]. subst host. eauto.
+Qed.
+Lemma origin_backed_weaken n : origin_backed n -> origin_backed_in n.
+Proof.
+  intros H k h e o Hin. destruct (H _ _ _ _ Hin) as [c [Ec [Hh Hb]]]. split.
+  - exists c. now apply get_conn_some.
+  - unfold pw_get in Hb. destruct (List.find _ (n_peer_waiting n)) as [[hs l]|] eqn:E; [|discriminate].
+    apply find_some in E. destruct E as [E _]. eauto.
 Qed.
 
-Definition ans_disc (evs : list (dials * event)) : Prop := Forall (fun de => ans_ok (snd de)) evs.
 (* reachable by a history in which Application.send_answer is only called with answers *)
 Definition reach_a (n0 n : node) : Prop :=
   exists evs : list (dials * event), wf_init n0 /\ ans_disc evs /\ n = fst (run n0 evs).
@@ -3319,25 +3722,28 @@ Proof. intros [evs [[A _] [_ [B C]]]]. exists evs. auto. Qed.
 Lemma reach_a_reach n0 n : reach_a n0 n -> reach n0 n.
 Proof. intros [evs [A [_ C]]]. exists evs. auto. Qed.
 
-Lemma run_ob evs : forall n, ans_disc evs -> ob n -> ob (fst (run n evs)).
+(* OLD (origin table keyed by the pair only): forall n0 n, reach_a n0 n -> origin_backed n, without any guard.
+   With the table keyed by connection the entries of a connection leave with THAT connection only, so the
+   statement needs "one connection per host identity" (Zo), i.e. the guards: without clause (iii) it is false even
+   in the weak form (C19_origin_backed_unguarded_refuted). *)
+Theorem C19_origin_backed : forall n0 n, reach_ga n0 n -> origin_backed n.
 Proof.
-  induction evs as [|de r IH]; intros n Hd H; [exact H|].
-  inversion Hd; subst. rewrite run_cons. apply IH; auto. now apply step_ob.
-Qed.
-
-Theorem C19_origin_backed : forall n0 n, reach_a n0 n -> origin_backed n.
-Proof.
-  intros n0 n [evs [Hw [Hd E]]]. subst n. apply ob_origin_backed, run_ob; auto.
-  destruct Hw as [_ [_ [_ [_ [_ [Eo _]]]]]]. intros h e o Hin. rewrite Eo in Hin. destruct Hin.
+  intros n0 n [evs [[Hw Hne] [Hg [Hd E]]]]. subst n. apply ob_origin_backed.
+  apply run_Zob; auto.
+  - split; [now apply GC_init|now apply NI_init].
+  - destruct Hw as [Ec [_ [_ [_ [_ [Eo _]]]]]]. split.
+    + intros k h Hk. unfold hostof, hostl in Hk. rewrite Ec in Hk. discriminate.
+    + intros k h e o Hin. rewrite Eo in Hin. destruct Hin.
 Qed.
 
 Corollary C19_no_conns_no_origin : forall n0 n, reach_ga n0 n -> n_conns n = [] -> n_origin_waiting n = [].
 Proof.
-  intros n0 n H E. destruct (C19_no_conns_no_tables _ _ (reach_ga_reach_g _ _ H) E) as [_ [_ [Ep _]]].
-  pose proof (C19_origin_backed _ _ (reach_ga_reach_a _ _ H)) as Hb.
-  destruct (n_origin_waiting n) as [|[[h e] o] l] eqn:Eo; auto.
-  destruct (Hb h e o) as [host [l' [Hin _]]]; [rewrite Eo; now left|]. rewrite Ep in Hin. destruct Hin.
+  intros n0 n H E. pose proof (C19_origin_backed _ _ H) as Hb.
+  destruct (n_origin_waiting n) as [|[[[k h] e] o] l] eqn:Eo; auto.
+  destruct (Hb k h e o) as [c [Ec _]]; [rewrite Eo; now left|].
+  apply get_conn_some in Ec. rewrite E in Ec. destruct Ec as [[] _].
 Qed.
+
 
 (* ---------------------------------------------------------------------------------------- *)
 (* 9. witnesses: the statements are not vacuous, and the unguarded ones are false             *)
@@ -3633,7 +4039,7 @@ Example origin_backed_witness :
   let evs := [([], EAccept 1%Z); ([], ERecv 0 [ce true "a" 1%Z]); ([], ERecv 0 [appreq "a" 7%Z])] in
   let n := fst (run n0 evs) in
   let n' := fst (run n0 (evs ++ [([], EAppAnswer 0 (app_ans false 7%Z))])) in
-  reach_ga n0 n /\ n_origin_waiting n = [(7%Z, 7%Z, "a"%string)] /\ n_peer_waiting n = [("a"%string, [(7%Z, 7%Z)])] /\
+  reach_ga n0 n /\ n_origin_waiting n = [(0, 7%Z, 7%Z, "a"%string)] /\ n_peer_waiting n = [("a"%string, [(7%Z, 7%Z)])] /\
   reach_ga n0 n' /\ n_origin_waiting n' = [] /\ n_peer_waiting n' = [("a"%string, [])].
 Proof.
   cbv zeta. split; [|split; [vm_compute; reflexivity|split; [vm_compute; reflexivity|split; [|split; vm_compute; reflexivity]]]].
@@ -3652,15 +4058,45 @@ Qed.
 Theorem C19_origin_backed_request_flag_refuted :
   exists n0 evs, wf_init_g n0 /\ ce_guard n0 evs /\
     let n := fst (run n0 evs) in
-    n_origin_waiting n = [(7%Z, 7%Z, "a"%string)] /\ n_peer_waiting n = [("a"%string, [])] /\ ~ origin_backed n.
+    n_origin_waiting n = [(0, 7%Z, 7%Z, "a"%string)] /\ n_peer_waiting n = [("a"%string, [])] /\
+    ~ origin_backed_in n /\ ~ origin_backed n.
 Proof.
   exists (node0 [mkpeer "a" false]).
   exists [([], EAccept 1%Z); ([], ERecv 0 [ce true "a" 1%Z]); ([], ERecv 0 [appreq "a" 7%Z]);
           ([], EAppAnswer 0 (app_ans true 7%Z))].
   split; [split; [wf_tac|cbn; intuition discriminate]|]. split; [ce_guard_tac|].
-  cbv zeta. split; [reflexivity|]. split; [reflexivity|]. intros H.
-  destruct (H 7%Z 7%Z "a"%string) as [host [l [Hin Hm]]]; [vm_compute; auto|].
-  vm_compute in Hin. destruct Hin as [E|[]]. inversion E; subst. discriminate Hm.
+  cbv zeta. split; [reflexivity|]. split; [reflexivity|].
+  assert (Hn : ~ origin_backed_in (fst (run (node0 [mkpeer "a" false])
+            [([], EAccept 1%Z); ([], ERecv 0 [ce true "a" 1%Z]); ([], ERecv 0 [appreq "a" 7%Z]);
+             ([], EAppAnswer 0 (app_ans true 7%Z))]))).
+  { intros H. destruct (H 0 7%Z 7%Z "a"%string) as [_ [host [l [Hin Hm]]]]; [vm_compute; auto|].
+    vm_compute in Hin. destruct Hin as [E|[]]. inversion E; subst. discriminate Hm. }
+  split; [exact Hn|]. intros H. apply Hn. now apply origin_backed_weaken.
+Qed.
+
+(* ---- clause (iii) of the guard is needed for C19_origin_backed (it was not while the origin table was keyed by
+   the pair only: the old statement had no guard).  A request read from a connection whose connect() is still in
+   progress is filed under the empty host identity; the entries of the origin table leave with THEIR connection
+   only, but the waiting set of the empty host identity leaves with any connection that has no host identity
+   yet: the origin entry of connection 0 stays, nothing backs it.  The history satisfies (i') and the
+   discipline. ---- *)
+Theorem C19_origin_backed_unguarded_refuted :
+  exists n0 evs, wf_init_g n0 /\ cer_guard n0 evs /\ ans_disc evs /\
+    let n := fst (run n0 evs) in
+    reach_a n0 n /\ n_origin_waiting n = [(0, 7%Z, 7%Z, "a"%string)] /\ n_peer_waiting n = [] /\
+    ~ origin_backed_in n /\ ~ origin_backed n.
+Proof.
+  exists (node0 [mkpeer "a" true]).
+  exists [([(1%Z, DialInProgress)], EStart); ([], ERecv 0 [appreq "a" 7%Z]); ([], EAccept 1%Z); ([], EPeerClose 1)].
+  split; [split; [wf_tac|cbn; intuition discriminate]|]. split; [ce_guard_tac|].
+  split; [repeat constructor|]. cbv zeta.
+  split; [eexists; split; [wf_tac|split; [|reflexivity]]; repeat constructor|].
+  split; [reflexivity|]. split; [reflexivity|].
+  assert (Hn : ~ origin_backed_in (fst (run (node0 [mkpeer "a" true])
+            [([(1%Z, DialInProgress)], EStart); ([], ERecv 0 [appreq "a" 7%Z]); ([], EAccept 1%Z); ([], EPeerClose 1)]))).
+  { intros H. destruct (H 0 7%Z 7%Z "a"%string) as [_ [host [l [Hin _]]]]; [vm_compute; auto|].
+    vm_compute in Hin. destruct Hin. }
+  split; [exact Hn|]. intros H. apply Hn. now apply origin_backed_weaken.
 Qed.
 
 (* ---------------------------------------------------------------------------------------- *)
@@ -3802,6 +4238,7 @@ Print Assumptions C13_empty_name_refuted.
 Print Assumptions C19_empty_name_refuted.
 Print Assumptions origin_backed_witness.
 Print Assumptions C19_origin_backed_request_flag_refuted.
+Print Assumptions C19_origin_backed_unguarded_refuted.
 Print Assumptions C13_ready_flag_partial.
 Print Assumptions C13_ready_flag_removed.
 Print Assumptions C13_peer_conn_converse_partial.
